@@ -2,6 +2,7 @@
 
 import ast
 import copy
+from fractions import Fraction
 
 from ..rulekit import *
 from ..norm import Normalizer, Poly, NormError
@@ -17,11 +18,17 @@ R = Rules(
         "into polynomial normal form and compared with the RFC 7959 section 2.2 / RFC 8323 section 6 "
         "reference (size = 2^(SZX+4), start = NUM*size, slice [start, min(start+size, len)), more <=> "
         "end < len, BERT unit 1024).  Ordering clauses are dominance / must-pass rules on per-function CFGs: "
-        "the Block1 number comparison precedes every cursor update and its mismatch arm raises, the cursor "
-        "advances exactly once per acknowledged block, the size-reduction loop is the transformer "
-        "(cursor, szx) -> (cursor*2^k, szx-k) that keeps cursor*2^(szx+4), the final block refuses "
-        "'more'/2.31, three raising guards precede the Block2 append, assembly errors are re-raised and "
-        "reach response.set_exception.  C05.f evaluates the same size-reduction step at the BERT exponent, where "
+        "the Block1 number comparison precedes every cursor update and every consistent continuation of its "
+        "mismatch outcome raises.  The cursor/exponent bookkeeping is decided on the effect of one round of the "
+        "Block1 loop: the checker's own evaluator executes the CFG from one cut to the next for every pair "
+        "(current exponent s, exponent a answered by the server) in 0..7 x 0..7 with the cursor symbolic, "
+        "and the resulting state must be (szx, cursor) = (min(s,a), (cursor+advance)*2^(u(s)-u(min(s,a)))) with "
+        "u(x) = min(x,6)+4 and advance = 1 block (BERT: len(sent payload)//1024 units) -- however the code spells "
+        "it (stepwise while/for loop, one shift, conditional expressions, expanded helpers, tuple assignment).  "
+        "The final block refuses 'more'/2.31 on every consistent way of leaving the loop (branch outcomes "
+        "accumulate literals, contradictory outcomes are not taken), three raising guards precede the Block2 "
+        "append, assembly errors are re-raised and "
+        "reach response.set_exception.  C05.f is the same round evaluation at the BERT exponent, where "
         "block numbers count 1024-byte units exactly as at exponent 6 (RFC 8323 section 6), so the cursor must "
         "not be doubled when going from 7 to 6.  Paper step: with these premises the offsets sent are contiguous and "
         "the assembled body is a concatenation of in-order blocks of one representation.  Not decided: "
@@ -29,6 +36,7 @@ R = Rules(
     ),
     rule_text=(
         "reaching-definition expansion + polynomial normal forms over a finite exponent domain, "
+        "symbolic execution of one loop round over the finite exponent domain, literal-consistent path walks, "
         "dominating-guard facts, must-pass path rules, class-hierarchy facts"
     ),
 )
@@ -52,6 +60,15 @@ _IMPURE_NODES = (ast.Await, ast.Yield, ast.YieldFrom, ast.NamedExpr, ast.Lambda,
 
 def _default_pure(call):
     return chain(call.func) in _PURE_BUILTINS
+
+
+def pure_or_predicate(call):
+    """Calls a definition may contain and still be substituted into its uses: the pure builtins and argument-less
+    `x.is_*()` predicates (the same purity assumption the engine's copy propagation makes)."""
+    if _default_pure(call):
+        return True
+    f = call.func
+    return isinstance(f, ast.Attribute) and f.attr.startswith("is_") and not call.args and not call.keywords and chain(f.value) is not None
 
 
 def first_leaf_test(e):
@@ -110,11 +127,51 @@ def _retag(e, names, tag):
     return _Retag(names, tag).visit(copy.deepcopy(e))
 
 
+def unpacked_value(target, value, name):
+    """The expression bound to `name` by the unpacking assignment `target = value`: the matching element of a
+    tuple/list display (`a, b = x, y`), else the positional element `value[i]` (`a, b, c = t`; Expander.fields
+    turns `t[i]` into `t.<field i>` for named tuples).  None for starred targets or a name bound twice."""
+    if isinstance(target, ast.Name):
+        return value if target.id == name else None
+    if not isinstance(target, (ast.Tuple, ast.List)) or any(isinstance(x, ast.Starred) for x in target.elts):
+        return None
+    hits = [i for i, t in enumerate(target.elts) if any(isinstance(x, ast.Name) and x.id == name for x in ast.walk(t))]
+    if len(hits) != 1:
+        return None
+    i = hits[0]
+    if isinstance(value, (ast.Tuple, ast.List)):
+        if len(value.elts) != len(target.elts) or any(isinstance(x, ast.Starred) for x in value.elts):
+            return None
+        sub = value.elts[i]
+    else:
+        sub = ast.Subscript(value=value, slice=ast.Constant(value=i), ctx=ast.Load())
+    return unpacked_value(target.elts[i], sub, name)
+
+
+def _split_tuple_compare(e):
+    """`(a, b) == (c, d)` -> `a == c and b == d`; `(a, b) != (c, d)` -> `a != c or b != d` (tuple equality is
+    element-wise equality); None for anything else."""
+    if not (isinstance(e, ast.Compare) and len(e.ops) == 1 and isinstance(e.ops[0], (ast.Eq, ast.NotEq))):
+        return None
+    a, b = e.left, e.comparators[0]
+    if not (isinstance(a, ast.Tuple) and isinstance(b, ast.Tuple) and len(a.elts) == len(b.elts) and a.elts):
+        return None
+    if any(isinstance(x, ast.Starred) for x in list(a.elts) + list(b.elts)):
+        return None
+    eq = isinstance(e.ops[0], ast.Eq)
+    parts = [ast.Compare(left=x, ops=[ast.Eq() if eq else ast.NotEq()], comparators=[y]) for x, y in zip(a.elts, b.elts)]
+    if len(parts) == 1:
+        return parts[0]
+    return ast.BoolOp(op=ast.And() if eq else ast.Or(), values=parts)
+
+
 class Expander:
     LIMIT = 20000
 
-    def __init__(self, fi, subst=None, inline=None, pure=None, minmax=True, path_conds=True, opaque=()):
+    def __init__(self, fi, subst=None, inline=None, pure=None, minmax=True, path_conds=True, opaque=(), fields=None, loop_carried=False):
         self.opaque = set(opaque)  # locals that are never replaced by their definitions
+        self.fields = fields or {}  # chain of a named tuple -> its field names: `t[i]` is read as `t.<field i>`
+        self.loop_carried = loop_carried  # also substitute definitions that reach the use over a loop back edge
         self.fi = fi
         self.cfg = cfg_of(fi)
         self.subst = subst or {}
@@ -156,6 +213,8 @@ class Expander:
             return st.value
         if isinstance(st, ast.AugAssign) and isinstance(st.target, ast.Name):
             return ast.BinOp(left=ast.Name(id=name, ctx=ast.Load()), op=st.op, right=st.value)
+        if isinstance(st, ast.Assign) and len(st.targets) == 1 and isinstance(st.targets[0], (ast.Tuple, ast.List)):
+            return unpacked_value(st.targets[0], st.value, name)
         return None
 
     def reaching(self, name, nid):
@@ -181,7 +240,7 @@ class Expander:
         cfg = self.cfg
         # the definition must reach the use without going round a loop
         avoid = {n for n, _ in self.writes(name)} - {nid}
-        if nid not in cfg.reach({wn}, avoid=avoid, skip_labels=("back",)):
+        if not self.loop_carried and nid not in cfg.reach({wn}, avoid=avoid, skip_labels=("back",)):
             return False
         return True
 
@@ -194,6 +253,8 @@ class Expander:
                 continue
             if any(yn in between and yn != nid for yn, _ in self.writes(y)):
                 out.add(y)
+            elif y != name and not isinstance(st, ast.AugAssign) and any(ys is st for _yn, ys in self.writes(y)):
+                out.add(y)  # `a, b = b, a`: the same statement rebinds what the value mentions
         return out
 
     def _path_conditions(self, name, wn, between, nid):
@@ -271,6 +332,16 @@ class Expander:
                 return [(self.subst[c], ())]
             if c is not None and c in self.inline:
                 return self._inline(c, depth)
+        if isinstance(e, ast.Subscript) and isinstance(e.slice, ast.Constant) and isinstance(e.slice.value, int) and not isinstance(e.slice.value, bool):
+            i = e.slice.value
+            c = chain(e.value)
+            if c is not None and c in self.fields and 0 <= i < len(self.fields[c]):
+                return self.expand(ast.Attribute(value=e.value, attr=self.fields[c][i], ctx=ast.Load()), nid, depth + 1)
+            if isinstance(e.value, ast.Tuple) and 0 <= i < len(e.value.elts) and not any(isinstance(x, ast.Starred) for x in e.value.elts):
+                return self.expand(e.value.elts[i], nid, depth + 1)
+        split = _split_tuple_compare(e)
+        if split is not None:
+            return self.expand(split, nid, depth + 1)
         if isinstance(e, ast.IfExp):
             out = []
             for truth, c1 in self._cond_alts(e.test, nid, depth):
@@ -331,7 +402,7 @@ class Expander:
     def _inline(self, c, depth):
         g = self.inline[c]
         if c not in self._subs:
-            self._subs[c] = Expander(g, self.subst, self.inline, self.pure, self.minmax, self.path_conds)
+            self._subs[c] = Expander(g, self.subst, self.inline, self.pure, self.minmax, self.path_conds, fields=self.fields)
         sub = self._subs[c]
         sub._count = 0
         out = []
@@ -683,11 +754,122 @@ def unit_exp(s):
 # ===========================================================================
 
 
-def _kw(call, name):
+def flat_keywords(call):
+    """{keyword name: value expression} of a call, with every spelling of a keyword argument treated alike:
+    `f(k=v)`, `f(**{"k": v})`, `f(**dict(k=v))`, `f(**{**a, "k": v})` (the caller has already replaced locals by
+    their definitions, so `opts = {name: v}; f(**opts)` arrives here as a dict display).  None when a `**`
+    operand is not a dict display with constant string keys -- the keyword set is then unknown.  A name given
+    twice is a TypeError at run time (call) / last one wins (display); both are reported as unknown."""
+    out = {}
+
+    def put(k, v):
+        if k in out:
+            return False
+        out[k] = v
+        return True
+
+    def splat(d):
+        if isinstance(d, ast.Dict):
+            for k, v in zip(d.keys, d.values):
+                if k is None:
+                    if not splat(v):
+                        return False
+                elif isinstance(k, ast.Constant) and isinstance(k.value, str):
+                    if not put(k.value, v):
+                        return False
+                else:
+                    return False
+            return True
+        if isinstance(d, ast.Call) and chain(d.func) == "dict" and len(d.args) <= 1:
+            if d.args and not splat(d.args[0]):
+                return False
+            for k in d.keywords:
+                if k.arg is None:
+                    if not splat(k.value):
+                        return False
+                elif not put(k.arg, k.value):
+                    return False
+            return True
+        return False
+
     for k in call.keywords:
-        if k.arg == name:
-            return k.value
-    return None
+        if k.arg is None:
+            if not splat(k.value):
+                return None
+        elif not put(k.arg, k.value):
+            return None
+    return out
+
+
+def materialise_splats(fi, call, nid):
+    """`kw = {...}; kw[k] = v; kw.update(x=y); f(**kw)`: a copy of `call` (evaluated at CFG node nid) in which
+    every `**name` operand whose dict is built up by item stores / update() is replaced by the equivalent dict
+    display `{**<initial>, k: v, "x": y}`.  Only straight-line build-ups are interpreted: every store dominates
+    the call, follows the initial binding, sits in no loop, and nothing it mentions is rebound before the
+    call; anything else is refused (AnalysisError).  Calls without such operands are returned unchanged."""
+    if not isinstance(call, ast.Call):
+        return call
+    cfg = cfg_of(fi)
+    new_kws, changed = [], False
+    for k in call.keywords:
+        if k.arg is not None or not isinstance(k.value, ast.Name):
+            new_kws.append(k)
+            continue
+        nm = k.value.id
+        stores = stores_to(fi.node, nm, nested=False)
+        if all(kind == "assign" for kind, _n in stores):
+            new_kws.append(k)
+            continue
+        what = "dict %s passed as ** operand in %s" % (nm, fi.short)
+        inits = [n for kind, n in stores if kind == "assign"]
+        if len(inits) != 1 or not (isinstance(inits[0], ast.Assign) and len(inits[0].targets) == 1 and isinstance(inits[0].targets[0], ast.Name)):
+            raise AnalysisError("%s: not built up from a single initial binding" % what)
+        init = inits[0]
+        if not (isinstance(init.value, ast.Dict) or (isinstance(init.value, ast.Call) and chain(init.value.func) == "dict")):
+            raise AnalysisError("%s: initial value is not a dict display" % what)
+        i0 = cfg.loc1(init)
+        steps = []
+        for kind, n in stores:
+            if n is init:
+                continue
+            if kind == "setitem" and isinstance(n, ast.Assign) and len(n.targets) == 1 and isinstance(n.targets[0], ast.Subscript) \
+                    and isinstance(n.targets[0].value, ast.Name) and not isinstance(n.targets[0].slice, ast.Slice):
+                items = [(n.targets[0].slice, n.value)]
+            elif kind == "update" and isinstance(n, ast.Call) and isinstance(cfg.nodes[cfg.loc1(n)].ast, ast.Expr) and cfg.nodes[cfg.loc1(n)].ast.value is n \
+                    and len(n.args) <= 1 and not any(isinstance(x, ast.Starred) for x in n.args):
+                items = [(None, x) for x in n.args] + [(ast.Constant(value=kk.arg) if kk.arg is not None else None, kk.value) for kk in n.keywords]
+            else:
+                raise AnalysisError("%s: modified by something other than item assignment / update(): %s" % (what, stmt_text(n, 60)))
+            sn = cfg.loc1(n)
+            if not (cfg.dominates(i0, sn) and cfg.dominates(sn, nid)) or sn in cfg.reach({sn}) or sn == nid:
+                raise AnalysisError("%s: item store %s is conditional, in a loop or after the call" % (what, stmt_text(n, 60)))
+            steps.append((sn, items))
+        steps.sort(key=lambda x: len(cfg.dominators(x[0])))
+        for sn, items in [(i0, [(None, init.value)])] + steps:
+            between = cfg.reach({sn}) & (rreach(cfg, nid) | {nid})
+            for kx, vx in items:
+                for y in names_in(vx) | (names_in(kx) if kx is not None else set()):
+                    if any(set(cfg.locate(w)) & between for w in writes_to_name(fi.node, y)):
+                        raise AnalysisError("%s: %s is rebound between the store and the call" % (what, y))
+        keys, vals = [None], [init.value]
+        for _sn, items in steps:
+            for kx, vx in items:
+                keys.append(kx)
+                vals.append(vx)
+        new_kws.append(ast.keyword(arg=None, value=ast.Dict(keys=keys, values=vals)))
+        changed = True
+    if not changed:
+        return call
+    out = copy.copy(call)
+    out.keywords = new_kws
+    return out
+
+
+def _kw(call, name):
+    kws = flat_keywords(call)
+    if kws is None:
+        raise AnalysisError("keyword set of %s cannot be determined (a ** operand is not a dict display with constant keys)" % stmt_text(call))
+    return kws.get(name)
 
 
 @R.clause("C05.a", "_extract_block: size = 2^(szx+4), start = num*size, slice [start, min(start+size, len)), more <=> end < len, option (num, more, szx); out of range raises; BERT unit 1024")
@@ -713,18 +895,34 @@ def a(ctx):
         if not ok:
             fam[(id(r), family)][2].append(why)
 
+    def pure(call):
+        # constructing a dict / tuple / Block option value / message copy from pure operands is pure
+        c = chain(call.func) or ""
+        return pure_or_predicate(call) or c in ("dict", "tuple", "self.copy") or c.split(".")[-1] == BT.split(".")[-2]
+
+    # `m = self.copy(...); return m`: the message is read where it is built (the definition dominates the return)
+    rvals = {}
+    for r in rets:
+        if r.value is None:
+            continue
+        e, at = r.value, cfg.loc1(r)
+        if isinstance(e, ast.Name):
+            ws = writes_to_name(fi.node, e.id)
+            if len(ws) == 1 and Expander._def_value(e.id, ws[0]) is not None and cfg.dominates(cfg.loc1(ws[0]), at):
+                e, at = Expander._def_value(e.id, ws[0]), cfg.loc1(ws[0])
+        rvals[id(r)] = (materialise_splats(fi, e, at), at)
     nalts = 0
     for s in range(8):
         bert = s == 7
         W = "BERT" if bert else "regular"
-        X = Expander(fi, subst={szx: C(s)})
+        X = Expander(fi, subst={szx: C(s)}, pure=pure)
         size = P("1024 * (MAXBERT // 1024)") if bert else Poly.const(2 ** (s + 4))
         start = NUM * Poly.const(2 ** unit_exp(s))
         A = start + size
         for r in rets:
             if r.value is None:
                 continue
-            for lits, v in alts_expr(X, N, r.value, cfg.loc1(r), node_conditions(fi, r)):
+            for lits, v in alts_expr(X, N, rvals[id(r)][0], rvals[id(r)][1], node_conditions(fi, r)):
                 nalts += 1
                 ctx.need(isinstance(v, ast.Call), "_extract_block returns something that is not a call building the block message")
                 pay = _kw(v, "payload")
@@ -740,7 +938,9 @@ def a(ctx):
                 t = "szx=%d" % s
                 rec(r, "%s: block starts at num * %s" % (W, "1024" if bert else "2^(szx+4)"), lo == start, "%s: start = %r" % (t, lo))
                 if hi == A:
-                    okhi = entails(lits, ("lt", A - L - Poly.const(1)))
+                    # a slice bound beyond the end is clamped to len(payload) by the slice itself, so
+                    # payload[start:start+size] *is* payload[start:min(start+size, len)]
+                    okhi = True
                 elif hi == L:
                     okhi = entails(lits, ("lt", L - A - Poly.const(1)))
                 else:
@@ -753,8 +953,8 @@ def a(ctx):
                 rec(r, "%s: requests carry the descriptor in Block1, responses in Block2" % W, (is_req and b1 is not None) or (is_resp and b2 is not None),
                     "%s: %s under %s" % (t, "block1" if b1 is not None else "block2", _show(lits)))
                 opt = b1 if b1 is not None else b2
-                elts = opt.elts if isinstance(opt, ast.Tuple) else (opt.args if isinstance(opt, ast.Call) and not opt.keywords else None)
-                ctx.need(elts is not None and len(elts) == 3, "_extract_block: block option is not a (num, more, szx) triple")
+                elts = block_triple(opt)
+                ctx.need(elts is not None, "_extract_block: block option is not a (num, more, szx) triple")
                 try:
                     on, os_ = N.poly(elts[0]), N.poly(elts[2])
                 except NormError as e:
@@ -790,6 +990,51 @@ def _lit_text(l):
 # ===========================================================================
 
 
+BLOCK_FIELDS = ("block_number", "more", "size_exponent")
+
+
+def namedtuple_fields(prog, ci):
+    """Field names (in positional order) of a class built on collections.namedtuple(...) / typing.NamedTuple,
+    read from the class statement: `class C(namedtuple("N", [...]))`, `class C(Base)` with
+    `Base = namedtuple(...)` in the same module, or annotated fields of a typing.NamedTuple body."""
+    def from_call(e):
+        if isinstance(e, ast.Call) and (chain(e.func) or "").split(".")[-1] == "namedtuple" and len(e.args) >= 2:
+            try:
+                v = norm.consteval(e.args[1])
+            except (NormError, TypeError, ValueError):
+                return None
+            if isinstance(v, str):
+                v = v.replace(",", " ").split()
+            if isinstance(v, (tuple, list)) and all(isinstance(x, str) for x in v):
+                return list(v)
+        return None
+
+    for b in ci.node.bases:
+        got = from_call(b)
+        if got is None and isinstance(b, ast.Name):
+            for st in ast.walk(ci.module.tree):
+                if isinstance(st, ast.Assign) and len(st.targets) == 1 and isinstance(st.targets[0], ast.Name) and st.targets[0].id == b.id:
+                    got = from_call(st.value)
+        if got is not None:
+            return got
+        if (chain(b) or "").split(".")[-1] == "NamedTuple":
+            return [st.target.id for st in ci.node.body if isinstance(st, ast.AnnAssign) and isinstance(st.target, ast.Name)]
+    return None
+
+
+def block_triple(e, fields=BLOCK_FIELDS):
+    """(num, more, szx) expressions of a Block option value: a tuple display, or a constructor call with
+    positional and/or keyword arguments named after the fields; None otherwise."""
+    if isinstance(e, ast.Tuple):
+        return list(e.elts) if len(e.elts) == 3 and not any(isinstance(x, ast.Starred) for x in e.elts) else None
+    if isinstance(e, ast.Call) and not any(isinstance(a, ast.Starred) for a in e.args):
+        kws = flat_keywords(e)
+        if kws is None or len(e.args) + len(kws) != 3 or not set(kws) <= set(fields[len(e.args):]):
+            return None
+        return list(e.args) + [kws[f] for f in fields[len(e.args):]]
+    return None
+
+
 def _returns(fi):
     return [n for n in walk_no_nested(fi.node) if isinstance(n, ast.Return) and n.value is not None]
 
@@ -804,7 +1049,11 @@ def b(ctx):
     f_size, f_start, f_valid, f_red = (prog.func(BT + n) for n in ("size", "start", "is_valid_for_payload_size", "reduced_to"))
     ctx.need(_is_property(f_size) and _is_property(f_start), "BlockwiseTuple.size/start are no longer properties")
     ci = prog.cls(BT[:-1])
-    inline = {"self." + n: m for n, m in ci.methods.items() if _is_property(m) and n not in ("block_number", "more", "size_exponent")}
+    fields = namedtuple_fields(prog, ci)
+    ctx.need(fields is not None and tuple(fields) == BLOCK_FIELDS, "BlockwiseTuple is no longer a named tuple of (block_number, more, size_exponent)")
+    fields = tuple(fields)
+    inline = {"self." + n: m for n, m in ci.methods.items() if _is_property(m) and n not in BLOCK_FIELDS}
+    FX = {"self": fields}
     N = Normalizer(rename={"self.block_number": "NUM"})
     NUM = Poly.atom("NUM")
 
@@ -818,7 +1067,7 @@ def b(ctx):
         cfg = cfg_of(fi)
         ctx.need(cfg.must_pass(cfg.entry, [cfg.loc1(r) for r in rets]), "BlockwiseTuple.%s can fall off its end" % fi.name)
         for s in range(8):
-            X = Expander(fi, subst={"self.size_exponent": C(s)}, inline={k: v for k, v in inline.items() if v is not fi})
+            X = Expander(fi, subst={"self.size_exponent": C(s)}, inline={k: v for k, v in inline.items() if v is not fi}, fields=FX)
             for r in rets:
                 for lits, v in alts_expr(X, N, r.value, cfg.loc1(r), [(t, pol) for t, pol, _ in cfg.guards(cfg.loc1(r))]):
                     n += 1
@@ -846,7 +1095,7 @@ def b(ctx):
     fam = {"more": [], "last": [], "bert-more": [], "bert-last": []}
     cnt = 0
     for s in range(8):
-        X = Expander(fi, subst={"self.size_exponent": C(s)}, inline=inline)
+        X = Expander(fi, subst={"self.size_exponent": C(s)}, inline=inline, fields=FX)
         size = Poly.const(2 ** unit_exp(s))
         for r in rets:
             rn = cfg.loc1(r)
@@ -896,7 +1145,7 @@ def b(ctx):
     cnt = 0
     for s in range(8):
         for m in range(8):
-            X = Expander(fi, subst={"self.size_exponent": C(s), pp[0]: C(m)}, inline=inline)
+            X = Expander(fi, subst={"self.size_exponent": C(s), pp[0]: C(m)}, inline=inline, fields=FX)
             for r in rets:
                 rn = cfg.loc1(r)
                 for lits, v in alts_expr(X, N, r.value, rn, [(t, pol) for t, pol, _ in cfg.guards(rn)]):
@@ -905,8 +1154,17 @@ def b(ctx):
                     if isinstance(v, ast.Name) and v.id == "self":
                         n2, s2, more_ok = NUM, Poly.const(s), True
                     else:
-                        elts = v.elts if isinstance(v, ast.Tuple) else (v.args if isinstance(v, ast.Call) and not v.keywords else None)
-                        ctx.need(elts is not None and len(elts) == 3, "reduced_to returns something that is neither self nor a (num, more, szx) triple")
+                        if isinstance(v, ast.Call) and chain(v.func) == "self._replace" and not v.args:
+                            # namedtuple API: the fields not named keep their value
+                            kws = flat_keywords(v)
+                            ctx.need(kws is not None and set(kws) <= set(fields), "reduced_to: fields replaced by self._replace cannot be determined")
+                            keep = {"block_number": ast.Attribute(value=ast.Name(id="self", ctx=ast.Load()), attr="block_number", ctx=ast.Load()),
+                                    "more": ast.Attribute(value=ast.Name(id="self", ctx=ast.Load()), attr="more", ctx=ast.Load()), "size_exponent": C(s)}
+                            elts = [kws.get(f, keep[f]) for f in fields]
+                        else:
+                            elts = block_triple(v, fields)
+                        ctx.need(elts is not None, "reduced_to returns something that is neither self nor a (num, more, szx) triple")
+                        elts = [elts[fields.index(f)] for f in BLOCK_FIELDS]
                         try:
                             n2, s2 = N.poly(elts[0]), N.poly(elts[2])
                         except NormError as e:
@@ -948,59 +1206,84 @@ def _assigned_name(st, value):
     return None
 
 
+def bound_args(call, callee):
+    """{parameter name: argument expression} of a call to the method `callee` (positional and keyword
+    arguments alike); None when the call uses * / ** or does not fit the signature."""
+    names = params(callee)
+    if any(isinstance(a, ast.Starred) for a in call.args) or len(call.args) > len(names):
+        return None
+    out = dict(zip(names, call.args))
+    for k in call.keywords:
+        if k.arg is None or k.arg not in names or k.arg in out:
+            return None
+        out[k.arg] = k.value
+    return out
+
+
 def _block1_roles(ctx):
     """Identify, by data flow only, the block cursor, the exponent variable, the
-    block just cut, its request and its response in BlockwiseRequest._run."""
+    message sent in a round, its request and its response in BlockwiseRequest._run."""
     fi = ctx.prog.func(BR + "_run")
     cfg = cfg_of(fi)
     r = _Roles()
     r.fi, r.cfg = fi, cfg
-    calls = list(find("$r._extract_block($c, $s, $m)", fi.node))
+    callee = ctx.prog.func(MSG + "_extract_block")
+    ctx.need(len(params(callee)) == 3, "_extract_block signature changed")
+    calls = [n for n in walk_no_nested(fi.node) if isinstance(n, ast.Call) and isinstance(n.func, ast.Attribute) and n.func.attr == "_extract_block"]
     ctx.floor("_extract_block call sites in BlockwiseRequest._run", len(calls), 1)
     ctx.need(len(calls) == 1, "several _extract_block call sites in BlockwiseRequest._run")
-    call, b = calls[0]
-    ctx.need(isinstance(b["c"], ast.Name) and isinstance(b["s"], ast.Name), "_run: block cursor / size exponent handed to _extract_block are not locals")
-    r.call, r.cursor, r.szx, r.req, r.maxarg = call, b["c"].id, b["s"].id, chain(b["r"]), b["m"]
+    call = calls[0]
+    ba = bound_args(call, callee)
+    ctx.need(ba is not None and len(ba) == 3, "_run: arguments of _extract_block cannot be matched to its parameters")
+    pc, ps, pm = params(callee)
+    ctx.need(isinstance(ba[pc], ast.Name) and isinstance(ba[ps], ast.Name), "_run: block cursor / size exponent handed to _extract_block are not locals")
+    r.call, r.cursor, r.szx, r.maxarg = call, ba[pc].id, ba[ps].id, ba[pm]
+    r.call_nid = cfg.loc1(call)
+    r.N = Normalizer()
+    r.req = canon_chain(Expander(fi), call.func.value, r.call_nid)
     ctx.need(r.req in params(fi), "_run: _extract_block is not called on the application request parameter")
-    r.blk = _assigned_name(_own_stmt(cfg, call), call)
-    ctx.need(r.blk is not None, "_run: result of _extract_block is not bound to a local")
+    cut = _assigned_name(_own_stmt(cfg, call), call)
     loops = enclosing_loops(cfg, call, fi.node)
     ctx.need(loops, "_run: _extract_block is not called inside the Block1 loop")
     r.outer = loops[0]
-    sends = [n for n, bb in find("$p.request($x, $**kw)", r.outer) if isinstance(bb["x"], ast.Name) and bb["x"].id == r.blk]
+    # the request of a round: protocol.request(<message>) whose message can be the block just cut (directly, or
+    # through a local that is bound to the cut block on some path and to the whole request on the others)
+    sends = []
+    XO = Expander(fi, path_conds=False)
+    for n, bb in find("$p.request($x, $**kw)", r.outer):
+        sn = cfg.loc1(n)
+        x = bb["x"]
+        if not isinstance(x, ast.Name):
+            continue
+        vals = [v for v, _c in XO.expand(x, sn)]
+        if any(v is call or (isinstance(v, ast.Name) and cut is not None and v.id == cut) for v in vals):
+            ctx.need(all(v is call or (isinstance(v, ast.Name) and v.id == cut) or chain(v) == r.req for v in vals),
+                     "_run: the message sent in a round is neither the block just cut nor the application request")
+            sends.append((n, x.id))
     ctx.need(len(sends) == 1, "_run: expected exactly one request built from the current block (found %d)" % len(sends))
-    r.send = sends[0]
+    r.send, r.blk = sends[0]
     r.send_nid = cfg.loc1(r.send)
-    r.q = _assigned_name(_own_stmt(cfg, r.send), r.send)
-    ctx.need(r.q is not None, "_run: the block request is not bound to a local")
+    # the local holding the message of the round is a role of its own ("what was sent"), whichever of the
+    # two it is bound to: it is never replaced by its definitions
+    r.X = Expander(fi, opaque={r.blk})
+    # its response: `x = await <request>.response`, the request being the call itself or a local bound to it
     r.resp = None
     for n in ast.walk(r.outer):
-        if isinstance(n, ast.Await) and isinstance(n.value, ast.Attribute) and n.value.attr == "response" and isinstance(n.value.value, ast.Name) and n.value.value.id == r.q:
-            nm = _assigned_name(_own_stmt(cfg, n), n)
-            if nm is not None:
-                ctx.need(r.resp is None, "_run: the block response is awaited twice")
-                r.resp, r.resp_nid = nm, cfg.loc1(n)
+        if isinstance(n, ast.Await) and isinstance(n.value, ast.Attribute) and n.value.attr == "response":
+            base = n.value.value
+            if base is r.send or (isinstance(base, ast.Name) and resolve_local(fi.node, base) is r.send):
+                nm = _assigned_name(_own_stmt(cfg, n), n)
+                if nm is not None:
+                    ctx.need(r.resp is None, "_run: the block response is awaited twice")
+                    r.resp, r.resp_nid = nm, cfg.loc1(n)
     ctx.need(r.resp is not None, "_run: no `x = await <block request>.response` in the Block1 loop")
-    ctx.need(cfg.dominates(r.send_nid, r.resp_nid), "_run: response awaited before the request is sent")
-    r.X = Expander(fi)
-    r.N = Normalizer()
+    ctx.need(r.send_nid == r.resp_nid or cfg.dominates(r.send_nid, r.resp_nid), "_run: response awaited before the request is sent")
 
     def in_outer(st):
         return any(l is r.outer for l in enclosing_loops(cfg, st, fi.node))
 
-    def innermost(st):
-        ls = enclosing_loops(cfg, st, fi.node)
-        return ls[0] if ls else None
-
     r.cur_writes = [w for w in writes_to_name(fi.node, r.cursor) if in_outer(w)]
     r.szx_writes = [w for w in writes_to_name(fi.node, r.szx) if in_outer(w)]
-    r.adv = [w for w in r.cur_writes if innermost(w) is r.outer]
-    r.red_loops = []
-    for l in ast.walk(r.outer):
-        if isinstance(l, (ast.While, ast.For)) and l is not r.outer:
-            if any(innermost(w) is l for w in r.cur_writes + r.szx_writes):
-                r.red_loops.append(l)
-    r.innermost = innermost
     b1n = "%s.opt.block1" % r.resp
     x1n = "%s.opt.block1" % r.blk
     r.match = ("eq", norm._signnorm(Poly.atom(b1n + ".block_number") - Poly.atom(x1n + ".block_number")))
@@ -1008,192 +1291,835 @@ def _block1_roles(ctx):
     r.final = ("nottruth", x1n + ".more")
     r.resp_more = b1n + ".more"
     r.resp_szx = b1n + ".size_exponent"
+    r.mism = pseudo_asserting(r.X, r.N, cfg, lambda a: entails(a, r.mismatch))
+    r.matchp = pseudo_asserting(r.X, r.N, cfg, lambda a: entails(a, r.match))
     return r
 
 
-def _infeasible(r, s):
-    """Branch outcomes of tests over the exponent variable alone that are false when it equals s."""
-    out = set()
-    for p in pseudo_nodes(r.cfg):
-        if names_in(p.ast) == {r.szx}:
-            try:
-                v = bool(norm.consteval(p.ast, {r.szx: s}))
-            except (NormError, TypeError):
-                continue
-            if v != (p.kind == "T"):
-                out.add(p.id)
-    return out
+# -- one round of the Block1 loop as a state transformer ----------------------
+#
+# The obligations on the cursor and the exponent are phrased over the *effect of one round*: starting right
+# after a block was cut at (cursor, szx) = (CUR, s), with the server acknowledging the block number and
+# answering with size exponent a, which (cursor, szx) does the next cut (or the next request) see?  The round is
+# executed by the checker's own evaluator on the CFG for every s, a in 0..7: the exponent, the acknowledged
+# exponent and everything derived from them are concrete integers, the cursor is a polynomial over the atom CUR
+# (and over len(<sent>.payload)//1024 for BERT); tests the valuation decides are followed, the others fork.
+# How the code spells the bookkeeping (a while loop that halves step by step, a for loop over a range, one shift
+# by a computed amount, conditional expressions, helpers that were expanded in place, tuple assignments) is
+# immaterial: only the resulting state is compared with RFC 7959 section 2.5 / RFC 8323 section 6.
 
 
-def _delta(name, w):
-    v = Expander._def_value(name, w)
-    if v is None:
-        return None
-    try:
-        return Normalizer(penv={name: Poly.atom("CUR")}).poly(v) - Poly.atom("CUR")
-    except NormError:
-        return None
+class _Undecided(Exception):
+    pass
 
 
-def _truth(N, test):
-    alts = [simplify(set(c)) for c in _dnf(N, test, True)]
-    if any(a is not None and not a for a in alts):
-        return True
-    if all(a is None for a in alts):
-        return False
-    return None
+class _Unknown(Exception):
+    pass
 
 
-def _interp(ctx, stmts, env, what):
-    """Effect of a loop body on the tracked variables (polynomial transformer);
-    if-statements must be decided by the tracked values."""
-    for st in stmts:
-        if isinstance(st, ast.Pass) or (isinstance(st, ast.Expr) and isinstance(st.value, ast.Call) and is_log_call(st.value)):
-            continue
-        if isinstance(st, (ast.Assign, ast.AugAssign, ast.AnnAssign)):
-            tgt = st.targets[0] if isinstance(st, ast.Assign) and len(st.targets) == 1 else getattr(st, "target", None)
-            if isinstance(tgt, ast.Name) and tgt.id in env:
-                v = Expander._def_value(tgt.id, st)
-                ctx.need(v is not None, "%s: unsupported assignment %s" % (what, stmt_text(st)))
+class _Raises(Exception):
+    """The evaluated operation raises at run time on this valuation (negative shift count, division by zero):
+    the path ends there."""
+
+
+_OPS = {ast.Add: "add", ast.Sub: "sub", ast.Mult: "mul", ast.FloorDiv: "floordiv", ast.Mod: "mod", ast.Pow: "pow", ast.LShift: "shl",
+        ast.RShift: "shr", ast.BitAnd: "and", ast.BitOr: "or", ast.BitXor: "xor", ast.Div: "div"}
+
+
+def _is_num(v):
+    return isinstance(v, int)  # bool included
+
+
+def _as_poly(v):
+    if isinstance(v, Poly):
+        return v
+    if _is_num(v):
+        return Poly.const(int(v))
+    raise _Unknown("not a number: %r" % (v,))
+
+
+def _settle(v):
+    """A polynomial without atoms is the integer it denotes."""
+    if isinstance(v, Poly):
+        c = v.const_value()
+        if c is not None and c.denominator == 1:
+            return int(c)
+    return v
+
+
+def _divisible(p, k):
+    return all((c / k).denominator == 1 for c in p.t.values())
+
+
+def _arith(op, l, r):
+    l, r = _settle(l), _settle(r)
+    if _is_num(l) and _is_num(r):
+        l, r = int(l), int(r)
+        try:
+            if op == "add":
+                return l + r
+            if op == "sub":
+                return l - r
+            if op == "mul":
+                return l * r
+            if op == "floordiv":
+                return l // r
+            if op == "mod":
+                return l % r
+            if op == "pow" and 0 <= r < 200:
+                return l ** r
+            if op == "shl" and 0 <= r < 200:
+                return l << r
+            if op == "shr" and r >= 0:
+                return l >> r
+            if op == "and":
+                return l & r
+            if op == "or":
+                return l | r
+            if op == "xor":
+                return l ^ r
+        except ZeroDivisionError:
+            raise _Raises("division by zero")
+        if op in ("shl", "shr") and r < 0:
+            raise _Raises("negative shift count")
+        raise _Unknown("arithmetic %s outside the evaluator" % op)
+    if isinstance(l, (tuple, list)) and isinstance(r, (tuple, list)) and op == "add":
+        return tuple(l) + tuple(r)
+    lp, rp = _as_poly(l), _as_poly(r)
+    if op == "add":
+        return lp + rp
+    if op == "sub":
+        return lp - rp
+    if op == "mul":
+        return lp * rp
+    if op in ("shl", "shr") and _is_num(r) and r < 0:
+        raise _Raises("negative shift count")
+    if op in ("floordiv", "mod") and _is_num(r) and r == 0:
+        raise _Raises("division by zero")
+    if op == "shl" and _is_num(r) and 0 <= r < 200:
+        return lp * Poly.const(2 ** int(r))
+    if op == "pow" and _is_num(r) and 0 <= r <= 4:
+        out = Poly.const(1)
+        for _ in range(int(r)):
+            out = out * lp
+        return out
+    if op == "pow" and _is_num(l) and int(l) == 2:
+        return norm.pow2(rp)
+    if op in ("floordiv", "shr") and _is_num(r):
+        k = int(r) if op == "floordiv" else (2 ** int(r) if 0 <= r < 200 else 0)
+        if k > 0 and _divisible(lp, k):
+            return lp * Poly.const(Fraction(1, k))  # exact: every atom stands for an integer
+    if op == "mod" and _is_num(r) and int(r) > 0 and _divisible(lp, int(r)):
+        return 0
+    if op in ("floordiv", "mod", "shr"):
+        return Poly.atom("%s(%r,%r)" % (op, lp, rp))  # the Normalizer's spelling of these atoms
+    raise _Unknown("arithmetic %s on symbolic operands" % op)
+
+
+_NO_SCOPE = {}
+
+
+class RoundEval:
+    """Expression evaluator of the round transformer.  Values are Python ints / bools / None / strings /
+    tuples / ranges (concrete) or Poly (symbolic integers).  `env` holds the tracked locals, `facts` maps
+    canonical attribute chains to concrete values; single-assignment locals that are not tracked are read
+    through their definitions, everything else is an atom named by its canonical chain."""
+
+    def __init__(self, fi, facts, tracked):
+        self.fi = fi
+        self.facts = facts
+        self.tracked = tracked
+        self.lenv = {k: v for k, v in norm.local_env(fi.node).items() if k not in tracked}
+        self.call_hook = None  # (call, callee chain, argument values, keyword values) -> value, for calls the evaluator does not know
+
+    def canon_chain(self, c):
+        head, _, rest = c.partition(".")
+        seen = set()
+        while head in self.lenv and head not in seen:
+            seen.add(head)
+            tgt = chain(self.lenv[head])
+            if tgt is None:
+                break
+            c = tgt + ("." + rest if rest else "")
+            head, _, rest = c.partition(".")
+        return c
+
+    def truth(self, v):
+        v = _settle(v)
+        if isinstance(v, Poly):
+            raise _Undecided()
+        if isinstance(v, range):
+            return len(v) > 0
+        return bool(v)
+
+    def compare(self, op, a, b):
+        a, b = _settle(a), _settle(b)
+        if isinstance(op, (ast.Is, ast.IsNot)):
+            if isinstance(a, Poly) or isinstance(b, Poly):
+                raise _Undecided()
+            if a is None or b is None or isinstance(a, bool) or isinstance(b, bool):
+                same = a is b
+                return same if isinstance(op, ast.Is) else not same
+            raise _Undecided()
+        if isinstance(op, (ast.In, ast.NotIn)):
+            if isinstance(b, (tuple, list, range, set, frozenset, dict)) and not isinstance(a, Poly) and not any(isinstance(x, Poly) for x in b):
+                return (a in b) if isinstance(op, ast.In) else (a not in b)
+            raise _Undecided()
+        if isinstance(a, Poly) or isinstance(b, Poly):
+            if not ((isinstance(a, Poly) or _is_num(a)) and (isinstance(b, Poly) or _is_num(b))):
+                raise _Undecided()
+            d = (_as_poly(a) - _as_poly(b)).const_value()
+            if d is None:
+                raise _Undecided()
+            a, b = d, 0
+        try:
+            if isinstance(op, ast.Eq):
+                return a == b
+            if isinstance(op, ast.NotEq):
+                return a != b
+            if isinstance(op, ast.Lt):
+                return a < b
+            if isinstance(op, ast.LtE):
+                return a <= b
+            if isinstance(op, ast.Gt):
+                return a > b
+            if isinstance(op, ast.GtE):
+                return a >= b
+        except TypeError:
+            pass
+        raise _Unknown("comparison outside the evaluator")
+
+    def ev(self, e, env, scope=None, depth=0):
+        if type(e) is ast.Constant:
+            return e.value
+        if scope is None:
+            scope = _NO_SCOPE
+        if type(e) is ast.Name:
+            if e.id in scope:
+                return scope[e.id]
+            if e.id in env:
+                v = env[e.id]
+                if isinstance(v, _Opaque):
+                    raise _Unknown("value of %s is outside the evaluator: %s" % (e.id, v.why))
+                return v
+        if depth > 80:
+            raise _Unknown("expression too deep")
+        ev = lambda x, sc=scope: self.ev(x, env, sc, depth + 1)
+        if isinstance(e, ast.Name):
+            if e.id in self.tracked:
+                raise _Unknown("%s read before it is bound in the round" % e.id)
+            if e.id in self.lenv:
                 try:
-                    env[tgt.id] = Normalizer(penv=dict(env)).poly(v)
-                except NormError as e:
-                    raise AnalysisError("%s: %s" % (what, e))
+                    return self.ev(self.lenv[e.id], env, None, depth + 1)
+                except _Unknown:
+                    pass
+            c = self.canon_chain(e.id)
+            return self.facts[c] if c in self.facts else Poly.atom(c)
+        if isinstance(e, ast.Attribute):
+            c = chain(e)
+            if c is None:
+                raise _Unknown("attribute of a computed value")
+            c = self.canon_chain(c)
+            return self.facts[c] if c in self.facts else Poly.atom(c)
+        if isinstance(e, (ast.Tuple, ast.List)):
+            out = []
+            for x in e.elts:
+                if isinstance(x, ast.Starred):
+                    out.extend(self._seq(ev(x.value)))
+                else:
+                    out.append(ev(x))
+            return tuple(out)
+        if isinstance(e, ast.Dict):
+            out = {}
+            for k, x in zip(e.keys, e.values):
+                xv = ev(x)
+                if k is None:
+                    if not isinstance(xv, dict):
+                        raise _Unknown("** of a value that is not a concrete dict")
+                    out.update(xv)
+                else:
+                    kv = _settle(ev(k))
+                    if isinstance(kv, Poly):
+                        raise _Unknown("symbolic dict key")
+                    out[kv] = xv
+            return out
+        if isinstance(e, ast.Subscript):
+            v, i = ev(e.value), (_settle(ev(e.slice)) if not isinstance(e.slice, ast.Slice) else None)
+            if isinstance(v, (tuple, range)) and _is_num(i):
+                if -len(v) <= i < len(v):
+                    return v[i]
+                raise _Raises("index out of range")
+            if isinstance(v, dict) and i is not None and not isinstance(i, Poly):
+                if i in v:
+                    return v[i]
+                raise _Raises("KeyError")
+            raise _Unknown("subscript outside the evaluator")
+        if isinstance(e, ast.UnaryOp):
+            if isinstance(e.op, ast.Not):
+                return not self.truth(ev(e.operand))
+            v = _settle(ev(e.operand))
+            if isinstance(e.op, ast.USub):
+                return -v if _is_num(v) else Poly.const(0) - _as_poly(v)
+            if isinstance(e.op, ast.UAdd):
+                return v
+            if isinstance(e.op, ast.Invert) and _is_num(v):
+                return ~int(v)
+            raise _Unknown("unary operator")
+        if isinstance(e, ast.BoolOp):
+            v = None
+            for x in e.values:
+                v = ev(x)
+                t = self.truth(v)
+                if t != isinstance(e.op, ast.And):
+                    return v
+            return v
+        if isinstance(e, ast.Compare):
+            left = ev(e.left)
+            for op, right in zip(e.ops, e.comparators):
+                rv = ev(right)
+                if not self.compare(op, left, rv):
+                    return False
+                left = rv
+            return True
+        if isinstance(e, ast.IfExp):
+            return ev(e.body) if self.truth(ev(e.test)) else ev(e.orelse)
+        if isinstance(e, ast.BinOp):
+            if type(e.op) not in _OPS:
+                raise _Unknown("operator")
+            return _arith(_OPS[type(e.op)], ev(e.left), ev(e.right))
+        if isinstance(e, (ast.GeneratorExp, ast.ListComp, ast.SetComp)):
+            return tuple(self._comprehend(e.elt, e.generators, env, dict(scope), depth))
+        if isinstance(e, ast.NamedExpr):
+            raise _Unknown("assignment expression")
+        if isinstance(e, ast.Call):
+            return self._call(e, env, scope, depth)
+        raise _Unknown("expression kind %s" % type(e).__name__)
+
+    @staticmethod
+    def _seq(v):
+        if isinstance(v, (tuple, list, range)):
+            return list(v)
+        raise _Unknown("iteration over a value that is not a concrete sequence")
+
+    def _bind_scope(self, target, v, scope):
+        if isinstance(target, ast.Name):
+            scope[target.id] = v
+        elif isinstance(target, (ast.Tuple, ast.List)) and isinstance(v, tuple) and len(v) == len(target.elts):
+            for t, x in zip(target.elts, v):
+                self._bind_scope(t, x, scope)
+        else:
+            raise _Unknown("comprehension target")
+
+    def _comprehend(self, elt, gens, env, scope, depth):
+        if not gens:
+            yield self.ev(elt, env, scope, depth + 1)
+            return
+        g = gens[0]
+        if g.is_async:
+            raise _Unknown("async comprehension")
+        for v in self._seq(self.ev(g.iter, env, scope, depth + 1)):
+            sc = dict(scope)
+            self._bind_scope(g.target, v, sc)
+            if all(self.truth(self.ev(c, env, sc, depth + 1)) for c in g.ifs):
+                yield from self._comprehend(elt, gens[1:], env, sc, depth)
+
+    def _call(self, e, env, scope, depth):
+        if isinstance(e.func, ast.Attribute) and e.func.attr in ("get", "keys", "values", "items") and not e.keywords:
+            try:
+                recv = self.ev(e.func.value, env, scope, depth + 1)
+            except _Unknown:
+                recv = None
+            if isinstance(recv, dict):
+                args = [_settle(self.ev(a, env, scope, depth + 1)) for a in e.args]
+                if e.func.attr == "get" and 1 <= len(args) <= 2 and not isinstance(args[0], Poly):
+                    return recv.get(args[0], args[1] if len(args) == 2 else None)
+                if e.func.attr != "get" and not args:
+                    return tuple(getattr(recv, e.func.attr)())
+                raise _Unknown("dict method call")
+        fn = chain(e.func)
+        if e.keywords and not (fn in ("sum", "min", "max") and all(k.arg in ("start", "default") for k in e.keywords)) and (self.call_hook is None or any(k.arg is None for k in e.keywords)):
+            raise _Unknown("call with keywords")
+        args = []
+        for a in e.args:
+            if isinstance(a, ast.Starred):
+                args.extend(self._seq(self.ev(a.value, env, scope, depth + 1)))
+            else:
+                args.append(_settle(self.ev(a, env, scope, depth + 1)))
+        kw = {k.arg: _settle(self.ev(k.value, env, scope, depth + 1)) for k in e.keywords}
+        conc = all(not isinstance(a, Poly) for a in args)
+        if fn == "range" and conc and 1 <= len(args) <= 3 and all(_is_num(a) for a in args):
+            rg = range(*[int(a) for a in args])
+            if len(rg) > 64:
+                raise _Unknown("range too long")
+            return rg
+        if fn == "len" and len(args) == 1:
+            if isinstance(args[0], (tuple, range, str, bytes)):
+                return len(args[0])
+            if isinstance(args[0], Poly):
+                return Poly.atom("len(%r)" % (args[0],))
+        if fn in ("min", "max") and args:
+            vals = self._seq(args[0]) if len(args) == 1 else args
+            if not vals and "default" in kw:
+                return kw["default"]
+            if not vals:
+                raise _Unknown("min/max of nothing")
+            best = vals[0]
+            for v in vals[1:]:
+                lt = self.compare(ast.Lt(), v, best)
+                if (fn == "min") == bool(lt):
+                    best = v
+            return best
+        if fn == "sum" and 1 <= len(args) <= 2:
+            acc = args[1] if len(args) == 2 else kw.get("start", 0)
+            for v in self._seq(args[0]):
+                acc = _arith("add", acc, v)
+            return _settle(acc)
+        if fn in ("int", "bool", "abs") and len(args) == 1 and _is_num(args[0]):
+            return {"int": int, "bool": bool, "abs": abs}[fn](args[0])
+        if fn == "int" and len(args) == 1 and isinstance(args[0], Poly):
+            return args[0]
+        if fn == "bool" and len(args) == 1:
+            return self.truth(args[0])
+        if fn == "divmod" and len(args) == 2:
+            return (_arith("floordiv", args[0], args[1]), _arith("mod", args[0], args[1]))
+        if fn in ("tuple", "list", "sorted", "reversed") and len(args) == 1 and conc:
+            s = self._seq(args[0])
+            if any(isinstance(x, Poly) for x in s) and fn == "sorted":
+                raise _Unknown("sorting symbolic values")
+            return tuple(sorted(s) if fn == "sorted" else (reversed(s) if fn == "reversed" else s))
+        if fn in ("all", "any") and len(args) == 1:
+            ts = [self.truth(x) for x in self._seq(args[0])]
+            return all(ts) if fn == "all" else any(ts)
+        if fn == "pow" and len(args) == 2:
+            return _arith("pow", args[0], args[1])
+        if self.call_hook is not None:
+            return self.call_hook(e, fn, args, kw)
+        raise _Unknown("call of %s" % (fn or "a computed function"))
+
+
+_EVAL_BUILTINS = {"len", "min", "max", "int", "bool", "abs", "sum", "range", "divmod", "pow", "tuple", "list", "sorted", "reversed", "all", "any"}
+
+
+def _arithmetic_only(e):
+    """The value is bookkeeping arithmetic (no awaits, no calls other than the evaluator's builtins): only such
+    definitions make their targets part of the tracked state; `block = request._extract_block(cursor, ...)` is an
+    object computed *from* the cursor, not part of it."""
+    for n in ast.walk(e):
+        if isinstance(n, (ast.Await, ast.Yield, ast.YieldFrom, ast.Lambda)):
+            return False
+        if isinstance(n, ast.Call) and chain(n.func) not in _EVAL_BUILTINS:
+            return False
+    return True
+
+
+def _freeze(env):
+    return tuple(sorted((k, repr(v)) for k, v in env.items()))
+
+
+class RoundExec:
+    STEPS = 6000
+
+    def __init__(self, ctx, r):
+        self.r = r
+        cfg = self.cfg = r.cfg
+        fi = r.fi
+        # tracked locals: the cursor, the exponent, every local of the loop whose definition mentions a tracked
+        # one, and the targets of the loop's for statements (the evaluator steps through those concretely)
+        T = {r.cursor, r.szx}
+        stmts = [n for n in ast.walk(r.outer) if isinstance(n, (ast.Assign, ast.AugAssign, ast.AnnAssign, ast.For))]
+        changed = True
+        while changed:
+            changed = False
+            for st in stmts:
+                if isinstance(st, ast.For):
+                    tg = {x.id for x in ast.walk(st.target) if isinstance(x, ast.Name)}
+                    if not tg <= T:
+                        T |= tg
+                        changed = True
+                    continue
+                val = st.value
+                if val is None or not (names_in(val) & T) or not _arithmetic_only(val):
+                    continue
+                tgts = st.targets if isinstance(st, ast.Assign) else [st.target]
+                tg = {x.id for t in tgts for x in ast.walk(t) if isinstance(x, ast.Name) and isinstance(x.ctx, ast.Store)}
+                if not tg <= T:
+                    T |= tg
+                    changed = True
+        ctx.need(r.blk not in T and r.resp not in T, "_run: the message sent / its response are computed from the cursor")
+        self.tracked = T
+        self.live = rreach(cfg, r.call_nid) | rreach(cfg, r.send_nid) | {r.call_nid, r.send_nid}
+
+    # -- statement effects -----------------------------------------------
+    def _bind(self, target, v, env, E, st):
+        if isinstance(target, ast.Name):
+            if target.id in self.tracked:
+                env[target.id] = _settle(v)
+            return
+        if isinstance(target, (ast.Tuple, ast.List)):
+            names = {x.id for x in ast.walk(target) if isinstance(x, ast.Name)} & self.tracked
+            if not names:
+                return
+            if any(isinstance(x, ast.Starred) for x in target.elts) or not isinstance(v, tuple) or len(v) != len(target.elts):
+                for nm in names:
+                    env[nm] = _Opaque(stmt_text(st, 80))
+                return
+            for t, x in zip(target.elts, v):
+                self._bind(t, x, env, E, st)
+        # attribute / subscript targets do not touch the tracked locals
+
+    def _stmt(self, st, env, E):
+        if isinstance(st, (ast.Assign, ast.AnnAssign, ast.AugAssign)):
+            tgts = st.targets if isinstance(st, ast.Assign) else [st.target]
+            names = {x.id for t in tgts for x in ast.walk(t) if isinstance(x, ast.Name) and isinstance(x.ctx, ast.Store)} & self.tracked
+            if not names or getattr(st, "value", None) is None:
+                return
+            try:
+                if isinstance(st, ast.AugAssign):
+                    if type(st.op) not in _OPS:
+                        raise _Unknown("operator")
+                    v = _arith(_OPS[type(st.op)], E.ev(ast.Name(id=st.target.id, ctx=ast.Load()), env), E.ev(st.value, env))
+                else:
+                    v = E.ev(st.value, env)
+            except (_Unknown, _Undecided) as x:
+                v = _Opaque("%s (%s)" % (stmt_text(st, 80), x))
+            # _Raises propagates: the caller ends the path
+            if isinstance(v, _Opaque):
+                for nm in names:
+                    env[nm] = v
+                return
+            for t in tgts:
+                self._bind(t, v, env, E, st)
+            return
+        for n in walk_no_nested(st):
+            if isinstance(n, ast.NamedExpr) and n.target.id in self.tracked:
+                env[n.target.id] = _Opaque(stmt_text(st, 80))
+            elif isinstance(n, ast.Name) and isinstance(n.ctx, ast.Del) and n.id in self.tracked:
+                env.pop(n.id, None)
+
+    # -- the walk ----------------------------------------------------------
+    def run(self, s, a):
+        """States (cursor, szx) seen by the next cut / the next request after a round that starts right after a
+        cut at (CUR, s) with the block number acknowledged and the server answering with exponent a.
+        Returns (list of (cursor value, exponent value, where), diverged)."""
+        r, cfg = self.r, self.cfg
+        E = RoundEval(r.fi, {r.resp_szx: a}, self.tracked)
+        env0 = {r.cursor: Poly.atom("CUR"), r.szx: s}
+        # locals derived from the exponent before the cut (at the top of the loop body) keep the values that the
+        # straight run from the loop head to the cut gives them, provided that run leaves cursor and exponent alone
+        heads = [h for h in cfg.locate(r.outer) if cfg.nodes[h].kind in ("join", "for")]
+        if heads:
+            pre, div = self._walk(E, [(d, lab, dict(env0), True) for d, lab in cfg.succ[heads[0]] if lab not in ("exc", "F")])
+            cuts = [env for nid, env in pre if nid == r.call_nid]
+            if cuts and not div and all(_freeze({k: env.get(k) for k in env0}) == _freeze(env0) for env in cuts):
+                for k, v in cuts[0].items():
+                    if k not in env0 and not k.startswith("@") and not isinstance(v, _Opaque) and all(k in env and repr(env[k]) == repr(v) for env in cuts):
+                        env0[k] = v
+        ends, div = self._walk(E, [(d, lab, dict(env0), False) for d, lab in cfg.succ[r.call_nid] if lab != "exc"])
+        return [(env.get(r.cursor), env.get(r.szx), "next cut" if nid == r.call_nid else "next request") for nid, env in ends], div
+
+    def _walk(self, E, todo):
+        """Run the states (node, incoming edge label, env, request already sent) until the next cut / the next
+        request; returns ([(stop node, env)], diverged)."""
+        r, cfg = self.r, self.cfg
+        seen = set()
+        out = []
+        steps = 0
+        while todo:
+            nid, lab, env, sent = todo.pop()
+            steps += 1
+            if steps > self.STEPS:
+                return out, True
+            if nid == r.call_nid or (nid == r.send_nid and sent):
+                out.append((nid, env))
                 continue
-        if isinstance(st, ast.If):
-            t = _truth(Normalizer(penv=dict(env)), st.test)
-            ctx.need(t is not None, "%s: branch %s is not decided by the cursor/exponent values" % (what, stmt_text(st.test)))
-            _interp(ctx, st.body if t else st.orelse, env, what)
+            if nid not in self.live or nid in r.mism:
+                continue
+            nd = cfg.nodes[nid]
+            if nd.kind == "for":
+                key = "@for%d" % nid
+                try:
+                    if lab != "back" or key not in env:
+                        env[key] = (tuple(E._seq(E.ev(nd.ast.iter, env))), 0)
+                    else:
+                        env[key] = (env[key][0], env[key][1] + 1)
+                    seq, i = env[key]
+                except _Raises:
+                    continue
+                except (_Unknown, _Undecided) as x:
+                    writes = {n.id for n in ast.walk(nd.ast) if isinstance(n, ast.Name) and isinstance(n.ctx, ast.Store)} & self.tracked
+                    tg = {n.id for n in ast.walk(nd.ast.target) if isinstance(n, ast.Name)}
+                    if writes - tg:
+                        raise AnalysisError("_run: for loop over %s writes %s but cannot be stepped through (%s)" % (stmt_text(nd.ast.iter, 60), sorted(writes - tg), x))
+                    seq, i = (), 0  # a loop that does not touch the tracked state is skipped
+                want = "T" if i < len(seq) else "F"
+                if want == "T":
+                    self._bind(nd.ast.target, seq[i], env, E, nd.ast)
+                else:
+                    env.pop(key, None)
+                nxt = [(d, l) for d, l in cfg.succ[nid] if l == want]
+            elif nd.kind == "test":
+                try:
+                    t = E.truth(E.ev(nd.ast, env))
+                    nxt = [(d, l) for d, l in cfg.succ[nid] if l == ("T" if t else "F")]
+                except _Raises:
+                    continue
+                except (_Unknown, _Undecided):
+                    nxt = [(d, l) for d, l in cfg.succ[nid] if l in ("T", "F")]
+            elif nd.kind in ("return", "raise", "exit", "rexit"):
+                continue
+            else:
+                if nd.kind == "stmt" and nd.ast is not None:
+                    try:
+                        self._stmt(nd.ast, env, E)
+                    except _Raises:
+                        continue  # an exception leaves the round: no next block on this path
+                if nid == r.send_nid:
+                    sent = True
+                nxt = [(d, l) for d, l in cfg.succ[nid] if l != "exc"]
+            for d, l in nxt:
+                key = (d, l == "back", sent, _freeze(env))
+                if key in seen:
+                    continue
+                seen.add(key)
+                todo.append((d, l, dict(env), sent))
+        return out, False
+
+
+class _Opaque:
+    def __init__(self, why):
+        self.why = why
+
+    def __repr__(self):
+        return "<?%s>" % self.why
+
+
+def _round_table(ctx, r):
+    """{(s, a): (states, diverged)} for s, a in 0..7 (computed once per run and shared by C05.c and C05.f)."""
+    table = getattr(r.fi, "_c05_round_table", None)
+    if table is None:
+        ex = RoundExec(ctx, r)
+        table = {}
+        for s in range(8):
+            for a in range(8):
+                table[(s, a)] = ex.run(s, a)
+        r.fi._c05_round_table = table
+    return table
+
+
+def _judge_round(r, s, a, states, diverged):
+    """Failure texts per family for one (s, a) against RFC 7959 section 2.5 / RFC 8323 section 6:
+    next exponent = min(s, a); next cursor * unit(next exponent) = (CUR + advance) * unit(s) where advance is one
+    block (BERT: len(<sent>.payload) // 1024 units) and unit(x) = 2^(min(x,6)+4)."""
+    w = "szx=%d, server answers %d" % (s, a)
+    fails = {"exp": [], "adv": [], "off": []}
+    if diverged:
+        fails["exp"].append("%s: the round does not come to an end (exponent bookkeeping diverges)" % w)
+        return fails
+    if s == 7:  # the reference is spelled by the same evaluator that executes the round
+        adv = _as_poly(RoundEval(r.fi, {}, set()).ev(ast.parse("len(%s.payload) // 1024" % r.blk, mode="eval").body, {}))
+    else:
+        adv = Poly.const(1)
+    want_s = min(s, a)
+    if not any(where == "next cut" for _c, _s, where in states):
+        fails["exp"].append("%s: no path of the round reaches the next cut (the transfer cannot continue)" % w)
+    for cur, sx, where in states:
+        for v in (cur, sx):
+            if isinstance(v, _Opaque):
+                raise AnalysisError("_run: cursor / exponent bookkeeping outside the evaluator's vocabulary: %s" % v.why)
+        if cur is None or sx is None:
+            raise AnalysisError("_run: cursor / exponent unbound at the %s" % where)
+        sx = _settle(sx)
+        if not _is_num(sx) or isinstance(sx, bool) or sx != want_s:
+            fails["exp"].append("%s: exponent %r at the %s, expected %d" % (w, sx, where, want_s))
             continue
-        for n in ast.walk(st):
-            if isinstance(n, ast.Name) and isinstance(n.ctx, (ast.Store, ast.Del)) and n.id in env:
-                raise AnalysisError("%s: statement outside the rule's vocabulary writes %s: %s" % (what, n.id, stmt_text(st)))
-            if isinstance(n, (ast.Break, ast.Continue, ast.Return, ast.Raise)):
-                raise AnalysisError("%s: control transfer inside the size-reduction loop" % what)
-    return env
+        try:
+            got = _as_poly(cur) * Poly.const(2 ** unit_exp(int(sx)))
+        except _Unknown:
+            raise AnalysisError("_run: the cursor is not an integer expression at the %s" % where)
+        want = (Poly.atom("CUR") + adv) * Poly.const(2 ** unit_exp(s))
+        if got != want:
+            fam = "adv" if a >= s else "off"
+            fails[fam].append("%s: cursor %r at the %s (byte offset %r, expected %r)" % (w, _as_poly(cur), where, got, want))
+    return fails
+
+
+def fact_walk(r, starts, tracked):
+    """Consistent continuations of a round of the Block1 loop.  From the given (CFG node, facts) states the loop
+    body is walked along non-exceptional edges; every branch outcome adds the literals it asserts (c05
+    vocabulary, locals replaced by their definitions) to the facts of the state, and an outcome that contradicts
+    the facts already collected is not taken -- so `if last and bad: raise` / `if last: break`, a named
+    condition tested twice, nested ifs and guard clauses all yield the same states.  Tests over the tracked
+    bookkeeping locals (which change during the round) add nothing.  The facts concern one round: the walk
+    ends at the next cut / request.  Returns [(kind, node id, facts)] with kind in
+    'leave' (the loop is left normally / the function returns), 'next' (next round), 'raise'."""
+    cfg, X, N = r.cfg, r.X, r.N
+    inside_ast = {id(n) for n in ast.walk(r.outer)}
+
+    def inside(nid):
+        a = cfg.nodes[nid].ast
+        if a is None:
+            return cfg.nodes[nid].kind not in ("exit", "rexit", "entry")
+        while a is not None:
+            if id(a) in inside_ast:
+                return True
+            a = cfg.parent.get(id(a))
+        return False
+
+    lit_cache = {}
+
+    def lits_of(pid_):
+        if pid_ not in lit_cache:
+            p_ = cfg.nodes[pid_]
+            got = None
+            if isinstance(p_.ast, ast.expr) and not (names_in(p_.ast) & tracked):
+                try:
+                    alts = pseudo_lits(X, N, cfg, p_)
+                except AnalysisError:
+                    alts = []
+                if len(alts) == 1:
+                    got = alts[0]
+                elif not alts:
+                    got = False  # the outcome is impossible (decided by constants)
+            lit_cache[pid_] = got
+        return lit_cache[pid_]
+
+    out, seen = [], set()
+    todo = list(starts)
+    while todo:
+        nid, facts = todo.pop()
+        if (nid, facts) in seen:
+            continue
+        seen.add((nid, facts))
+        if len(seen) > 20000:
+            raise AnalysisError("_run: too many states in the Block1 round walk")
+        nd = cfg.nodes[nid]
+        if nd.kind == "raise":
+            out.append(("raise", nid, facts))
+            continue
+        if nid in (r.call_nid, r.send_nid) and (nid, facts) not in starts:
+            out.append(("next", nid, facts))
+            continue
+        if nd.kind in ("return", "exit") or not inside(nid):
+            out.append(("leave", nid, facts))
+            continue
+        for d, lab in cfg.succ[nid]:
+            if lab == "exc":
+                continue
+            nf = facts
+            if cfg.nodes[d].kind in ("T", "F") and nd.kind == "test":
+                L = lits_of(d)
+                if L is False:
+                    continue
+                if L is not None:
+                    nf = simplify(set(facts) | set(L))
+                    if nf is None:
+                        continue
+            todo.append((d, nf))
+    return out
 
 
 @R.clause("C05.c", "Block1 loop: the acknowledged block number is compared before the cursor moves and a mismatch raises; cursor +1 (BERT +len//1024) once per block; size reduction keeps cursor*2^(szx+4) and only lowers szx; the final block refuses more/2.31")
 def c(ctx):
     r = _block1_roles(ctx)
     fi, cfg, X, N = r.fi, r.cfg, r.X, r.N
+    # c1: what is cut
+    got_max = canon_chain(X, r.maxarg, r.call_nid)
+    remote_writes = {cfg.loc1(st) for _k, st in stores_to(fi.node, r.req + ".remote")}
+    stale = False
+    if isinstance(r.maxarg, ast.Attribute):
+        base = r.maxarg
+        while isinstance(base, ast.Attribute):
+            base = base.value
+        if isinstance(base, ast.Name) and base.id != r.req:
+            defs, entry = X.reaching(base.id, r.call_nid)
+            stale = entry or any(btw & remote_writes for _wn, _st, _v, btw in defs)
     ctx.ob("each block is cut from the application request at (cursor, szx, <request>.remote.maximum_payload_size)",
-           chain(r.maxarg) == r.req + ".remote.maximum_payload_size", fi, r.call)
-    ctx.floor("cursor updates in the Block1 loop", len(r.cur_writes), 2)
-    ctx.floor("cursor advance sites", len(r.adv), 1)
-    # c2: the comparison dominates every cursor update
-    for w in r.cur_writes:
-        ctx.ob("cursor update happens only after the acknowledged Block1 number was found equal to the number sent", holds_at(X, N, fi, w, r.match), fi, w)
-    # c3: mismatch raises
-    mism = pseudo_asserting(X, N, cfg, lambda a: entails(a, r.mismatch))
-    ctx.floor("branches taken on a Block1 number mismatch", len(mism), 1)
-    for pid_ in sorted(mism):
-        region = cfg.reach({pid_}, skip_labels=("exc",))
-        raises = [cfg.nodes[n] for n in region if cfg.nodes[n].kind == "raise"]
-        classes = [exc_class(ctx.prog, fi, n.ast) for n in raises]
-        ok = cfg.exit not in region and r.send_nid not in region and bool(raises) and all(
-            c is not None and ctx.prog.is_subclass(c, "aiocoap.error.UnexpectedBlock1Option") for c in classes)
+           got_max == r.req + ".remote.maximum_payload_size" and not stale, fi, r.call)
+    ctx.floor("cursor updates in the Block1 loop", len(r.cur_writes), 1)
+    # c2: every path from the request of a round to an update of the cursor / exponent passes a branch outcome
+    # that asserts "acknowledged number == number sent"
+    unchecked = cfg.reach({r.send_nid}, avoid=set(r.matchp) | {r.send_nid, r.call_nid}, skip_labels=("exc",))
+    for w in r.cur_writes + [x for x in r.szx_writes if x not in r.cur_writes]:
+        ctx.ob("cursor / exponent update happens only after the acknowledged Block1 number was found equal to the number sent",
+               not (set(cfg.locate(w)) & unchecked), fi, w)
+    # c3: mismatch raises (on every consistent continuation of a branch outcome that asserts the mismatch)
+    ctx.floor("branches taken on a Block1 number mismatch", len(r.mism), 1)
+    tracked = RoundExec(ctx, r).tracked
+    for pid_ in sorted(r.mism):
+        ends = []
+        for alt in pseudo_lits(X, N, cfg, cfg.nodes[pid_]):
+            ends.extend(fact_walk(r, [(pid_, alt)], tracked))
+        raises = [cfg.nodes[n] for k, n, _f in ends if k == "raise"]
+        classes = sorted({exc_class(ctx.prog, fi, n.ast) or "?" for n in raises})
+        others = sorted({k for k, _n, _f in ends if k != "raise"})
+        ok = not others and bool(raises) and all(ctx.prog.is_subclass(c, "aiocoap.error.UnexpectedBlock1Option") for c in classes)
         ctx.ob("a Block1 number mismatch ends the request with UnexpectedBlock1Option (no further block is sent, nothing is returned)", ok, fi, cfg.nodes[pid_].ast,
-               detail="raises %s; reaches exit=%s, next request=%s" % (classes, cfg.exit in region, r.send_nid in region))
-    # c4: advance exactly once per acknowledged block, by the right amount
-    matchp = pseudo_asserting(X, N, cfg, lambda a: entails(a, r.match))
-    ctx.floor("branches taken on a Block1 number match", len(matchp), 1)
-    adv_nodes = {cfg.loc1(w): w for w in r.adv}
-    szx_nodes = {cfg.loc1(w) for w in r.szx_writes}
-    between = cfg.reach({r.send_nid}, avoid=set(adv_nodes))
-    ctx.ob("the size exponent is not modified between cutting a block and advancing the cursor", not (szx_nodes & between), fi, r.call)
-    bert_ref = P("len(%s.payload) // 1024" % r.blk)
-    fails = {"regular": [], "BERT": []}
-    for s in range(8):
-        W = "BERT" if s == 7 else "regular"
-        inf = _infeasible(r, s)
-        app = {n: w for n, w in adv_nodes.items() if not any(cfg.dominates(p, n) for p in inf)}
-        for mp in matchp:
-            if mp in inf:
-                continue
-            if r.send_nid in cfg.reach({mp}, avoid=inf | set(app), skip_labels=("exc",)):
-                fails[W].append("szx=%d: the next block can be requested without advancing the cursor" % s)
-        for n, w in app.items():
-            if cfg.reach({n}, avoid=inf | {r.send_nid}, skip_labels=("exc",)) & set(app):
-                fails[W].append("szx=%d: cursor advanced twice for one block" % s)
-            d = _delta(r.cursor, w)
-            want = bert_ref if s == 7 else Poly.const(1)
-            if d != want:
-                fails[W].append("szx=%d: cursor advanced by %r" % (s, d))
-    anchor = r.adv[0]
-    ctx.ob("regular exponents: after each acknowledged block the cursor advances exactly once, by one block", not fails["regular"], fi, anchor,
-           detail="; ".join(fails["regular"][:4]) or None, construct="cursor advance (szx 0..6) in BlockwiseRequest._run")
-    ctx.ob("BERT: after each acknowledged block the cursor advances exactly once, by len(block payload)//1024", not fails["BERT"], fi, anchor,
-           detail="; ".join(fails["BERT"][:4]) or None, construct="cursor advance (szx 7) in BlockwiseRequest._run")
-    # c5: size reduction
-    ctx.floor("size-reduction loops", len(r.red_loops), 1)
-    ctx.need(len(r.red_loops) == 1, "_run: several nested loops modify the cursor / exponent")
-    loop = r.red_loops[0]
-    ctx.need(isinstance(loop, ast.While) and not loop.orelse, "_run: size reduction is not a plain while loop")
-    stray = [w for w in r.szx_writes if r.innermost(w) is not loop]
-    for w in stray:
-        ctx.ob("the size exponent changes only inside the size-reduction loop", False, fi, w)
-    if not stray:
-        ctx.ob("the size exponent changes only inside the size-reduction loop", True, fi, loop, construct="size-reduction loop of BlockwiseRequest._run")
-    tn = test_nid(cfg, loop.test)
-    ct = canon(X, loop.test, tn)
-    want_test = frozenset({frozenset({("lt", Poly.atom(r.resp_szx) - Poly.atom(r.szx))})})
-    try:
-        got_test = N.dnf(ct) if ct is not None else None
-    except NormError:
-        got_test = None
-    ctx.ob("size reduction runs exactly while the server's Block1 exponent is below the current one", got_test == want_test, fi, loop.test,
-           detail="normal form %s" % (sorted(map(_show, got_test)) if got_test else None))
-    ctx.ob("size reduction happens after the cursor advance and before the next block is cut",
-           not (set(adv_nodes) & cfg.reach({tn}, avoid={r.send_nid})) and tn not in cfg.reach(matchp, avoid=set(adv_nodes)), fi, loop.test,
-           construct="position of the size-reduction loop in BlockwiseRequest._run")
-    f_dec, f_inv = [], []
-    for s in range(1, 7):
-        env = _interp(ctx, loop.body, {r.cursor: Poly.atom("CUR"), r.szx: Poly.const(s)}, "size-reduction loop")
-        c2, s2 = env[r.cursor], env[r.szx].const_value()
-        if s2 is None or s2.denominator != 1 or not (0 <= s2 < s):
-            f_dec.append("szx=%d -> %r" % (s, env[r.szx]))
-            continue
-        if c2 * Poly.const(2 ** (int(s2) + 4)) != Poly.atom("CUR") * Poly.const(2 ** (s + 4)):
-            f_inv.append("szx=%d: (cursor, szx) -> (%r, %d)" % (s, c2, s2))
-    ctx.ob("every pass of the size-reduction loop lowers the exponent (it never grows; the loop terminates)", not f_dec, fi, loop, detail="; ".join(f_dec[:4]) or None,
-           construct="exponent step of the size-reduction loop in BlockwiseRequest._run")
-    ctx.ob("every pass of the size-reduction loop keeps the byte offset cursor * 2^(szx+4) (regular exponents)", not f_inv and not f_dec, fi, loop, detail="; ".join(f_inv[:4]) or None,
-           construct="cursor step of the size-reduction loop in BlockwiseRequest._run")
-    # c6: final block
-    finals = pseudo_asserting(X, N, cfg, lambda a: r.final in a)
-    ctx.floor("branches for 'the block just sent was the last one'", len(finals), 1)
-    nomore = pseudo_asserting(X, N, cfg, lambda a: ("nottruth", r.resp_more) in a or ("is", r.resp_more, "False") in a)
+               detail="raises %s; also: %s" % (classes, others or "nothing"))
+    # c4 / c5: the round transformer
+    table = _round_table(ctx, r)
+    nstates = sum(len(st) for st, _d in table.values())
+    ctx.floor("evaluated rounds of the Block1 loop that reach the next block", nstates, 64)
+    reg = {"exp": [], "adv": [], "off": []}
+    bert = {"exp": [], "adv": [], "off": []}
+    for (s, a), (states, div) in sorted(table.items()):
+        if s == 7 and a < 7:
+            continue  # C05.f
+        fl = _judge_round(r, s, a, states, div)
+        for k in fl:
+            (bert if s == 7 else reg)[k].extend(fl[k])
+    anchor = r.outer
+    ctx.ob("regular exponents: after each acknowledged block the cursor advances exactly once, by one block", not reg["adv"], fi, anchor,
+           detail="; ".join(reg["adv"][:4]) or None, construct="cursor advance (szx 0..6) in BlockwiseRequest._run")
+    ctx.ob("BERT: after each acknowledged block the cursor advances exactly once, by len(block payload)//1024", not bert["adv"] and not bert["exp"], fi, anchor,
+           detail="; ".join((bert["adv"] + bert["exp"])[:4]) or None, construct="cursor advance (szx 7) in BlockwiseRequest._run")
+    ctx.ob("the next block is cut with exponent min(current, server's Block1 exponent): it is lowered exactly to what the server asked for and never grows",
+           not reg["exp"], fi, anchor, detail="; ".join(reg["exp"][:4]) or None, construct="exponent step of the size reduction in BlockwiseRequest._run")
+    ctx.ob("size reduction keeps the byte offset cursor * 2^(szx+4) (regular exponents)", not reg["off"] and not reg["exp"], fi, anchor,
+           detail="; ".join(reg["off"][:4]) or None, construct="cursor step of the size reduction in BlockwiseRequest._run")
+    # c6: final block -- every consistent way of leaving the loop normally in a round whose block was the last one
+    # has seen "the response's Block1 has no more-flag" and "the response code is not 2.31"
     cont = None
     for n in ast.walk(r.outer):
         if isinstance(n, (ast.Name, ast.Attribute)) and (chain(n) or "").split(".")[-1] == "CONTINUE":
             q = ctx.prog.resolve_in_module(fi.module, chain(n))
             if q.startswith("aiocoap.numbers"):
                 cont = chain(n)
-    notcont = set()
-    if cont is not None:
-        lit = ("ne", norm._signnorm(Poly.atom(r.resp + ".code") - Poly.atom(cont)))
-        notcont = pseudo_asserting(X, N, cfg, lambda a: lit in a)
-    for fp in sorted(finals):
-        ctx.ob("after the final block the transfer only completes if the response's Block1 has no more-flag", cfg.must_pass(fp, nomore), fi, cfg.nodes[fp].ast,
-               construct="final-block arm of the Block1 loop [more]")
-        ctx.ob("after the final block the transfer only completes if the response code is not 2.31 Continue", bool(notcont) and cfg.must_pass(fp, notcont), fi, cfg.nodes[fp].ast,
-               construct="final-block arm of the Block1 loop [code]")
+    code = r.resp + ".code"
+
+    def no_more(fs):
+        return ("nottruth", r.resp_more) in fs or ("is", r.resp_more, "False") in fs
+
+    def not_continue(fs):
+        if cont is None:
+            return False
+        return ("ne", norm._signnorm(Poly.atom(code) - Poly.atom(cont))) in fs or ("isnot", code, cont) in fs or ("isnot", cont, code) in fs
+
+    ends = fact_walk(r, [(d, frozenset()) for d, lab in cfg.succ[r.resp_nid] if lab != "exc"], tracked)
+    final_leaves = [(n, fs) for k, n, fs in ends if k == "leave" and (r.final in fs or ("is", r.final[1], "False") in fs)]
+    ctx.floor("ways of completing the Block1 phase after the last block", len(final_leaves), 1)
+    bad_more = [fs for _n, fs in final_leaves if not no_more(fs)]
+    bad_code = [fs for _n, fs in final_leaves if not not_continue(fs)]
+    ctx.ob("after the final block the transfer only completes if the response's Block1 has no more-flag", not bad_more, fi, r.outer,
+           detail=("completes under %s" % _show(bad_more[0])) if bad_more else None, construct="final-block arm of the Block1 loop [more]")
+    ctx.ob("after the final block the transfer only completes if the response code is not 2.31 Continue", not bad_code, fi, r.outer,
+           detail=("completes under %s" % _show(bad_code[0])) if bad_code else None, construct="final-block arm of the Block1 loop [code]")
 
 
 @R.clause("C05.f", "size reduction away from the BERT exponent keeps the byte offset (block numbers count 1024-byte units for szx 7 and for szx 6)")
 def f(ctx):
     r = _block1_roles(ctx)
     fi = r.fi
-    ctx.need(len(r.red_loops) == 1 and isinstance(r.red_loops[0], ast.While), "_run: size-reduction loop not found")
-    loop = r.red_loops[0]
-    env = _interp(ctx, loop.body, {r.cursor: Poly.atom("CUR"), r.szx: Poly.const(7)}, "size-reduction loop")
-    c2, s2 = env[r.cursor], env[r.szx].const_value()
-    valid = s2 is not None and s2.denominator == 1 and 0 <= s2 <= 7
-    after = c2 * Poly.const(2 ** unit_exp(int(s2))) if valid else None
-    ctx.ob("a pass of the size-reduction loop starting at szx 7 keeps the byte offset cursor * 1024", valid and after == Poly.atom("CUR") * Poly.const(1024), fi, loop,
-           detail="(cursor, szx) = (CUR, 7) -> (%r, %r): byte offset %r instead of 1024*CUR" % (c2, env[r.szx], after),
-           construct="BERT step of the size-reduction loop in BlockwiseRequest._run")
+    table = _round_table(ctx, r)
+    fails = []
+    n = 0
+    for a in range(7):
+        states, div = table[(7, a)]
+        n += len(states)
+        fl = _judge_round(r, 7, a, states, div)
+        fails.extend(fl["exp"] + fl["adv"] + fl["off"])
+    ctx.floor("evaluated rounds that reduce the size from the BERT exponent", n, 7)
+    ctx.ob("a size reduction starting at szx 7 keeps the byte offset cursor * 1024 and lands on the server's exponent", not fails, fi, r.outer,
+           detail="; ".join(fails[:4]) or None, construct="BERT step of the size reduction in BlockwiseRequest._run")
 
 
 # ===========================================================================
@@ -1203,6 +2129,53 @@ def f(ctx):
 
 def _text(e):
     return " ".join(ast.unparse(e).split())
+
+
+def stored_values(st, target_chain):
+    """Value expressions an assignment statement stores into the attribute chain: plain, chained, annotated
+    and augmented (`t op= v` is `t = t op v`) assignments and element-wise tuple/list assignments
+    (`a, self.f = x, y`).  An element that cannot be paired with a value (starred, length mismatch, a call
+    being unpacked) is reported as None."""
+    out = []
+
+    def pair(t, v):
+        if isinstance(t, (ast.Tuple, ast.List)):
+            if isinstance(v, (ast.Tuple, ast.List)) and len(v.elts) == len(t.elts) and not any(isinstance(x, ast.Starred) for x in list(t.elts) + list(v.elts)):
+                for tt, vv in zip(t.elts, v.elts):
+                    pair(tt, vv)
+            elif any(chain(x) == target_chain for x in ast.walk(t) if isinstance(x, ast.Attribute)):
+                out.append(None)
+        elif chain(t) == target_chain:
+            out.append(v)
+
+    if isinstance(st, ast.Assign):
+        for t in st.targets:
+            pair(t, st.value)
+    elif isinstance(st, ast.AnnAssign) and st.value is not None:
+        pair(st.target, st.value)
+    elif isinstance(st, ast.AugAssign) and chain(st.target) == target_chain:
+        out.append(ast.BinOp(left=st.target, op=st.op, right=st.value))
+    return out
+
+
+def _is_concat(X, v, nid, left, right):
+    """v (evaluated at CFG node nid, locals replaced by their definitions) is the byte string `left` followed by
+    `right` and nothing else: `left + right`, `b"".join((left, right))`."""
+    def is_chain(e, want):
+        return canon_chain(X, e, nid) == want
+
+    if isinstance(v, ast.Name):
+        v = canon(X, v, nid)
+        if v is None:
+            return False
+    if isinstance(v, ast.BinOp) and isinstance(v.op, ast.Add):
+        return is_chain(v.left, left) and is_chain(v.right, right)
+    if isinstance(v, ast.Call) and isinstance(v.func, ast.Attribute) and v.func.attr == "join" and len(v.args) == 1 and not v.keywords:
+        sep = v.func.value
+        empty = (isinstance(sep, ast.Constant) and sep.value == b"") or (isinstance(sep, ast.Call) and chain(sep.func) == "bytes" and not sep.args and not sep.keywords)
+        seq = v.args[0]
+        return empty and isinstance(seq, (ast.Tuple, ast.List)) and len(seq.elts) == 2 and is_chain(seq.elts[0], left) and is_chain(seq.elts[1], right)
+    return False
 
 
 @R.clause("C05.d", "_append_response_block: payload-size validity, start == len(payload) and equal ETag are raising guards before the append; the next Block2 request asks for len(payload)//size")
@@ -1223,10 +2196,9 @@ def d(ctx):
               ("the block's offset equals the number of bytes assembled so far", start, None),
               ("the block's ETag equals the ETag of the first block", etag, "aiocoap.error.ResourceChanged"))
     for st in appends:
-        if isinstance(st, ast.AugAssign):
-            ok = isinstance(st.op, ast.Add) and chain(st.value) == nb + ".payload"
-        else:
-            ok = isinstance(st, ast.Assign) and match("self.payload + %s.payload" % nb, st.value) is not None
+        vals = stored_values(st, "self.payload")
+        sn = cfg.loc1(st)
+        ok = bool(vals) and all(v is not None and _is_concat(X, v, sn, "self.payload", nb + ".payload") for v in vals)
         ctx.ob("the assembled body grows by exactly the next block's payload", ok, fi, st)
         for text, lit, _cls in guards:
             ctx.ob("append happens only when " + text, holds_at(X, N, fi, st, lit), fi, st, construct="%s  [guard: %s]" % (stmt_text(st), text))
@@ -1271,8 +2243,8 @@ def d(ctx):
             m = match("$t.reduced_to($x)", b2)
             if m is not None:
                 reduced, b2 = True, m["t"]
-            elts = b2.elts if isinstance(b2, ast.Tuple) else (b2.args if isinstance(b2, ast.Call) and not b2.keywords else None)
-            ctx.need(elts is not None and len(elts) == 3, "_generate_next_block2_request: Block2 value is not a (num, more, szx) triple")
+            elts = block_triple(b2)
+            ctx.need(elts is not None, "_generate_next_block2_request: Block2 value is not a (num, more, szx) triple")
             try:
                 got = Normalizer().poly(elts[0])
             except NormError:
@@ -1314,6 +2286,11 @@ def _catches_exceptions(prog, types):
     return False
 
 
+def _future_query_pure(call):
+    f = call.func
+    return pure_or_predicate(call) or (isinstance(f, ast.Attribute) and f.attr in ("done", "cancelled") and not call.args and not call.keywords and chain(f.value) is not None)
+
+
 @R.clause("C05.e", "_complete_by_requesting_block2: a first block with number != 0 raises; a body is returned only when no more blocks are announced; assembly errors are re-raised; _run lets them escape and _run_outer hands every Exception to response.set_exception")
 def e(ctx):
     prog = ctx.prog
@@ -1326,10 +2303,13 @@ def e(ctx):
     X, N = Expander(fi), Normalizer()
     gens = [n for n, _ in find("$r._generate_next_block2_request($a)", fi.node)]
     ctx.floor("next-block requests in _complete_by_requesting_block2", len(gens), 1)
-    zero = ("eq", Poly.atom("%s.opt.block2.block_number" % init))
+    num0 = "%s.opt.block2.block_number" % init
+    zero = ("eq", Poly.atom(num0))
+    # `if num != 0:` and `if num:` are the same test of an integer
     for g in gens:
-        ctx.ob("further blocks are requested only when the first response carried block number 0", holds_at(X, N, fi, g, zero), fi, g)
-    nz = pseudo_asserting(X, N, cfg, lambda a: _neg(zero) in a)
+        ctx.ob("further blocks are requested only when the first response carried block number 0",
+               holds_at(X, N, fi, g, zero) or holds_at(X, N, fi, g, ("nottruth", num0)), fi, g)
+    nz = pseudo_asserting(X, N, cfg, lambda a: _neg(zero) in a or ("truth", num0) in a)
     ctx.floor("branches for a non-zero first block number", len(nz), 1)
     for pid_ in sorted(nz):
         region = cfg.reach({pid_}, skip_labels=("exc",))
@@ -1349,7 +2329,13 @@ def e(ctx):
                 return True
         return False
 
-    last = pseudo_asserting(X, N, cfg, done)
+    # A loop flag (`while more_expected:` ... `more_expected = block2.more is not False`) is read through its
+    # reaching definitions, including the one that arrives over the back edge: the outcome "flag is false" then
+    # asserts what the defining expression asserted when it was evaluated (its operands are not rebound between
+    # the definition and the test, else they are given their own atoms by Expander._stale).  Alternatives decided
+    # by constants (the initial `True`) drop out as contradictory.
+    XL = Expander(fi, loop_carried=True)
+    last = pseudo_asserting(XL, N, cfg, done)
     rets = [n for n in walk_no_nested(fi.node) if isinstance(n, ast.Return)]
     ctx.floor("returns of _complete_by_requesting_block2", len(rets), 2)
     for rt in rets:
@@ -1423,16 +2409,19 @@ def e(ctx):
                 hn = [i for i in ocfg.locate(h) if ocfg.nodes[i].kind == "handler"]
                 ctx.need(hn, "_run_outer: handler has no CFG node")
                 setx = {ocfg.loc1(n) for n, _ in find("%s.set_exception(%s)" % (fut, h.name), h)} if h.name else set()
-                donep = set()
-                for pz in pseudo_nodes(ocfg):
-                    if match("%s.done()" % fut, pz.ast) is not None and pz.kind == "T" and any(contains(s, pz.ast) for s in h.body):
-                        donep.add(pz.id)
+                # branch outcomes inside the handler that assert "<future>.done()", whether the call is tested in
+                # place or through a local (`pending = not response.done()` ... `if pending:`): a state query of
+                # the future is substituted like a pure predicate (nothing is awaited inside the handler)
+                OX, ON = Expander(oi, pure=_future_query_pure), Normalizer()
+                in_handler = {id(x) for s_ in h.body for x in ast.walk(s_)}
+                done_lit = ("truth", "%s.done()" % fut)
+                donep = {pz for pz in pseudo_asserting(OX, ON, ocfg, lambda a: done_lit in a) if id(ocfg.nodes[pz].ast) in in_handler}
                 ok = bool(setx) and ocfg.must_pass(hn[0], setx | donep)
                 ctx.ob("an exception caught from _run is stored in the response future unless the future is already done", ok, oi, h,
                        construct="except %s" % ", ".join(types))
                 for sx in setx:
                     ctx.ob("set_exception is attempted only on a future that is not done",
-                           holds_at(Expander(oi), Normalizer(), oi, ocfg.nodes[sx].ast, ("nottruth", "%s.done()" % fut)), oi, ocfg.nodes[sx].ast)
+                           holds_at(OX, ON, oi, ocfg.nodes[sx].ast, ("nottruth", "%s.done()" % fut)), oi, ocfg.nodes[sx].ast)
                 if covers_all:
                     seen_exc = True
                     break
@@ -1447,48 +2436,94 @@ F_OPT = "aiocoap/optiontypes.py"
 MMS_DOMAIN = sorted(set(range(1, 3301)) | {k * 1024 + d for k in range(3, 69) for d in (-129, -128, -127, -101, -100, -99, -29, -28, -27, -1, 0, 1, 27, 28, 29, 99, 100, 101, 127, 128, 129)} | {2 ** 31 - 1, 2 ** 32 - 1})
 
 
-def _run_settings_property(fi, mms, blockwise, csm_seen=True):
-    """Evaluate a property of RFC8323Remote whose body consists of assignments, ifs and returns over
-    (self._remote_settings or {}).get(<key>, <default>) in the checker's own evaluator."""
-    env = {}
+class _Returned(Exception):
+    def __init__(self, value):
+        self.value = value
 
-    def ev(e):
-        g = match("(self._remote_settings or {}).get($k, $d)", e) or match("self._remote_settings.get($k, $d)", e)
-        if g is not None and isinstance(g["k"], ast.Constant):
-            if not csm_seen:
-                return norm.consteval(g["d"], env)
-            return {"max-message-size": mms, "block-wise-transfer": blockwise}.get(g["k"].value, norm.consteval(g["d"], env))
-        if match("self._remote_settings is None", e) is not None:
-            return not csm_seen
-        if match("self._remote_settings is not None", e) is not None:
-            return csm_seen
-        if isinstance(e, ast.BoolOp):
-            vals = [ev(v) for v in e.values]
-            return all(vals) if isinstance(e.op, ast.And) else any(vals)
-        if isinstance(e, ast.UnaryOp) and isinstance(e.op, ast.Not):
-            return not ev(e.operand)
-        return norm.consteval(e, env)
 
-    def run(stmts):
-        for st in stmts:
-            if isinstance(st, ast.Expr) and isinstance(st.value, ast.Constant):
-                continue
-            if isinstance(st, ast.Assign) and len(st.targets) == 1 and isinstance(st.targets[0], ast.Name):
-                env[st.targets[0].id] = ev(st.value)
-            elif isinstance(st, ast.If):
-                r = run(st.body if ev(st.test) else st.orelse)
-                if r is not None:
-                    return r
-            elif isinstance(st, ast.Return):
-                return ("ret", ev(st.value))
-            else:
-                raise AnalysisError("%s: statement outside the evaluator's vocabulary: %s" % (fi.short, stmt_text(st, 60)))
+class ConcreteRunner:
+    """Runs a loop-free function body (assignments to locals, if statements, returns) in the checker's own
+    evaluator with the attribute chains in `facts` bound to concrete values; run() returns the returned value.
+    AnalysisError when the body leaves the evaluator's vocabulary or falls off its end."""
+
+    def __init__(self, fi, prog=None, _depth=0):
+        self.fi = fi
+        self.prog = prog
+        self._depth = _depth
+        self._callees = {}
+        local_names = {n.id for n in ast.walk(fi.node) if isinstance(n, ast.Name) and isinstance(n.ctx, ast.Store)} | set(params(fi))
+        self.E = RoundEval(fi, {}, local_names)
+        if prog is not None and fi.cls is not None:
+            self.E.call_hook = self._method_call
+
+    def _method_call(self, call, fn, args, kw):
+        """`self.m(...)` on a plain method of the same class hierarchy is run in the same evaluator (same facts),
+        its parameters bound to the argument values."""
+        f = call.func
+        if not (isinstance(f, ast.Attribute) and isinstance(f.value, ast.Name) and f.value.id == "self") or self._depth >= 4:
+            raise _Unknown("call of %s" % (fn or "a computed function"))
+        callee = self.prog.lookup_method(self.fi.cls.qn, f.attr)
+        if callee is None or callee.is_async or callee.node.decorator_list or callee.node.args.vararg or callee.node.args.kwarg or callee.node.args.kwonlyargs:
+            raise _Unknown("call of %s" % fn)
+        names = params(callee)
+        defaults = callee.node.args.defaults
+        bound = dict(zip(names, args))
+        if len(args) > len(names) or any(k in bound or k not in names for k in kw):
+            raise _Unknown("arguments of %s" % fn)
+        bound.update(kw)
+        sub = self._callees.get(f.attr)
+        if sub is None:
+            sub = self._callees[f.attr] = ConcreteRunner(callee, self.prog, self._depth + 1)
+        for nm, d in zip(names[len(names) - len(defaults):], defaults):
+            if nm not in bound:
+                bound[nm] = sub.E.ev(d, {})
+        if set(bound) != set(names):
+            raise _Unknown("arguments of %s" % fn)
+        sub.E.facts = self.E.facts
+        try:
+            sub._run(callee.node.body, dict(bound))
+        except _Returned as r:
+            return r.value
         return None
 
-    r = run(fi.node.body)
-    if r is None:
-        raise AnalysisError("%s does not return" % fi.short)
-    return r[1]
+    def _bind(self, t, v, st, env):
+        if isinstance(t, ast.Name):
+            env[t.id] = v
+        elif isinstance(t, (ast.Tuple, ast.List)) and isinstance(v, tuple) and len(v) == len(t.elts) and not any(isinstance(x, ast.Starred) for x in t.elts):
+            for tt, vv in zip(t.elts, v):
+                self._bind(tt, vv, st, env)
+        else:
+            raise _Unknown("assignment target in %s" % stmt_text(st, 60))
+
+    def _run(self, stmts, env):
+        E = self.E
+        for st in stmts:
+            if isinstance(st, ast.Assign):
+                v = E.ev(st.value, env)
+                for t in st.targets:
+                    self._bind(t, v, st, env)
+            elif isinstance(st, ast.If):
+                self._run(st.body if E.truth(E.ev(st.test, env)) else st.orelse, env)
+            elif isinstance(st, ast.Return) and st.value is not None:
+                raise _Returned(_settle(E.ev(st.value, env)))
+            elif isinstance(st, (ast.Pass, ast.Assert)) or (isinstance(st, ast.Expr) and (isinstance(st.value, ast.Constant) or (isinstance(st.value, ast.Call) and is_log_call(st.value)))):
+                continue
+            elif isinstance(st, ast.AnnAssign) and st.value is not None:
+                self._bind(st.target, E.ev(st.value, env), st, env)
+            elif isinstance(st, ast.AugAssign) and isinstance(st.target, ast.Name) and type(st.op) in _OPS:
+                env[st.target.id] = _arith(_OPS[type(st.op)], E.ev(ast.Name(id=st.target.id, ctx=ast.Load()), env), E.ev(st.value, env))
+            else:
+                raise _Unknown("statement %s" % stmt_text(st, 60))
+
+    def run(self, facts):
+        self.E.facts = facts
+        try:
+            self._run(self.fi.node.body, {})
+        except _Returned as r:
+            return r.value
+        except (_Unknown, _Undecided, _Raises) as x:
+            raise AnalysisError("%s outside the evaluator's vocabulary: %s" % (self.fi.short, x or type(x).__name__))
+        raise AnalysisError("%s does not return a value" % self.fi.short)
 
 
 @R.clause("C05.g", "BERT on reliable transports: whenever the peer's settings allow size exponent 7, the announced payload size holds at least one 1024-byte unit and the resulting message fits the peer's Max-Message-Size")
@@ -1505,14 +2540,15 @@ def g_bert_sizes(ctx):
         raise AnalysisError("RFC8323Remote.maximum_block_size_exp / maximum_payload_size missing")
     bad_unit = bad_fit = None
     n = 0
+    rex, rpl = ConcreteRunner(ex, ctx.prog), ConcreteRunner(pl, ctx.prog)
     for csm in (False, True):
         for bw in (False, True):
             for mms in (MMS_DOMAIN if csm else [1152]):
-                try:
-                    e = _run_settings_property(ex, mms, bw, csm)
-                    p = _run_settings_property(pl, mms, bw, csm)
-                except NormError as x:
-                    raise AnalysisError("RFC8323Remote size properties outside the evaluator's vocabulary: %s" % x)
+                settings = {"self._remote_settings": {"max-message-size": mms, "block-wise-transfer": bw} if csm else None}
+                e = rex.run(settings)
+                p = rpl.run(settings)
+                if not (_is_num(e) and _is_num(p)):
+                    raise AnalysisError("RFC8323Remote size properties do not evaluate to integers (%r, %r)" % (e, p))
                 n += 1
                 if e == 7 and p // 1024 < 1 and bad_unit is None:
                     bad_unit = (mms, bw, csm, e, p)
@@ -1564,6 +2600,13 @@ R.seed("C05.e", F_PRO, "            raise error.UnexpectedBlock2()\n", "        
 R.seed("C05.e", F_PRO, "            if block2.more is False:\n                return assembled_response", "            if block2.more is not False:\n                return assembled_response", "truncated body returned")
 R.seed("C05.e", F_PRO, "                logged = True\n                response.set_exception(e)\n", "                logged = True\n", "error never reaches the caller")
 R.seed("C05.e", F_PRO, "        except Exception as e:\n            logged = False", "        except error.Error as e:\n            logged = False", "non-aiocoap exceptions lost")
-R.seed("C05.f", F_PRO, "                block_cursor *= 2\n", "                block_cursor *= 4\n", "masked while the BERT step is refuted on the analysed tree")
+R.seed("C05.f", F_PRO, "                block_cursor *= 2\n", "                block_cursor *= 4\n", "a reduction by one step quadruples the cursor (also when coming down from the BERT exponent)")
+
+R.seed("C05.f", F_PRO, "                if size_exp != 7:\n", "                if True:\n", "the step from the BERT exponent to 6 doubles the cursor although both count 1024-byte units")
+R.seed("C05.c", F_PRO, "while block1.size_exponent < size_exp:", "while block1.size_exponent != size_exp:", "a server answering with a larger exponent makes the reduction run away")
+R.seed("C05.c", F_PRO, "                if size_exp != 7:\n", "                if size_exp < 6:\n", "the step from exponent 6 to 5 no longer doubles the cursor")
+R.seed("C05.d", F_MSG, "        self.payload += next_block.payload\n        self.opt.block2 = block2", "        self.payload = next_block.payload + self.payload\n        self.opt.block2 = block2", "block prepended instead of appended")
+R.seed("C05.e", F_PRO, "if initial_response.opt.block2.block_number != 0:", "if initial_response.opt.block2.block_number > 1:", "a transfer starting at block 1 accepted")
+R.seed("C05.a", F_MSG, "        if self.code.is_request():\n            return self.copy(payload=payload, mid=None, block1=blockopt)", "        if not self.code.is_request():\n            return self.copy(payload=payload, mid=None, block1=blockopt)", "descriptor options swapped between requests and responses")
 
 R.seed("C05.g", "aiocoap/transports/rfc8323common.py", "            return ((max_message_size - 128) // 1024) * 1024 + slack", "            return (max_message_size // 1024) * 1024 - 128 + slack", "payload size below 1024 for Max-Message-Size 1153..2047 while the exponent stays 7: empty BERT blocks for ever")
